@@ -1,7 +1,2490 @@
-//! C26: not implemented yet.
+//! C26: index key encoding (`turdb::encoding::key`) preserves the documented value order under
+//! memcmp, is injective (except the documented int 0 / float 0.0 sharing), round-trips through
+//! `decode_key`, and composite keys compare column by column.
+//!
+//! Oracle = an independent definition of the documented order (`rel`), never the type-prefix
+//! constants of the crate. Only orderings the module documentation promises are asserted:
+//!   * cross-type ranking of the "Type Prefix Scheme" table,
+//!   * numbers: -inf < negatives < zero < positives < +inf < NaN (int vs float inside the same sign
+//!     class is NOT asserted, only counted), int 0 and float +-0.0 share one key,
+//!   * text/blob bytewise, date/time/timestamp numeric, uuid/macaddr bytewise,
+//!   * arrays/tuples/composites element-wise lexicographic (shorter prefix first),
+//!   * JSON: kind ranking, numbers numeric (finite only), strings bytewise, arrays lexicographic,
+//!   * intervals only by component-wise dominance, timestamptz only when the instants differ,
+//!   * vector / inet / range / JSON object / enum across type ids: injectivity + round trip only.
+use crate::report::{catch, panic_site, Ctx};
+use crate::rng::Rng;
 use crate::Args;
+use bumpalo::Bump;
+use serde_json::json;
+use smallvec::SmallVec;
+use std::cmp::Ordering;
+use std::collections::{BTreeMap, HashSet};
+use turdb::encoding::key::{self as tk, DecodedJson, DecodedKey, JsonValue, KeyBuffer, Value as KV};
 
-pub fn run(_a: &Args) -> i32 {
-    println!("INCONCLUSIVE property=C26 reason=check not implemented yet");
-    2
+// ---------------------------------------------------------------------------------------------
+// value model
+// ---------------------------------------------------------------------------------------------
+
+#[derive(Clone, Debug)]
+enum J {
+    Null,
+    Bool(bool),
+    Num(f64),
+    Str(String),
+    Arr(Vec<J>),
+    Obj(Vec<(String, J)>),
+}
+
+#[derive(Clone, Debug)]
+enum V {
+    Null,
+    Bool(bool),
+    Int(i64),
+    Float(f64),
+    Text(String),
+    Blob(Vec<u8>),
+    Date(i32),
+    Time(i64),
+    Timestamp(i64),
+    TimestampTz(i64, i16),
+    Interval(i32, i32, i64), // months, days, micros
+    Uuid([u8; 16]),
+    Inet(bool, Vec<u8>, u8), // is_ipv6, addr (exactly 4 / 16 bytes), prefix_len
+    Mac([u8; 6]),
+    Enum(u32, u32),
+    Vector(Vec<f32>),
+    Json(J),
+    Array(Vec<V>),
+    Tuple(Vec<V>),
+    Composite(u32, Vec<V>),
+    Domain(u32, Box<V>),
+    Range { lo: Option<Box<V>>, hi: Option<Box<V>>, li: bool, ui: bool },
+}
+
+const NKINDS: u64 = 22;
+
+fn kind_id(v: &V) -> u64 {
+    match v {
+        V::Null => 0,
+        V::Bool(_) => 1,
+        V::Int(_) => 2,
+        V::Float(_) => 3,
+        V::Text(_) => 4,
+        V::Blob(_) => 5,
+        V::Date(_) => 6,
+        V::Time(_) => 7,
+        V::Timestamp(_) => 8,
+        V::TimestampTz(..) => 9,
+        V::Interval(..) => 10,
+        V::Uuid(_) => 11,
+        V::Inet(..) => 12,
+        V::Mac(_) => 13,
+        V::Enum(..) => 14,
+        V::Vector(_) => 15,
+        V::Json(_) => 16,
+        V::Array(_) => 17,
+        V::Tuple(_) => 18,
+        V::Composite(..) => 19,
+        V::Domain(..) => 20,
+        V::Range { .. } => 21,
+    }
+}
+
+// ---------------------------------------------------------------------------------------------
+// driving the real encoder
+// ---------------------------------------------------------------------------------------------
+
+fn to_jv<'a>(j: &'a J, bump: &'a Bump) -> JsonValue<'a> {
+    match j {
+        J::Null => JsonValue::Null,
+        J::Bool(b) => JsonValue::Bool(*b),
+        J::Num(n) => JsonValue::Number(*n),
+        J::Str(s) => JsonValue::String(s.as_str()),
+        J::Arr(xs) => {
+            let v: Vec<JsonValue<'a>> = xs.iter().map(|x| to_jv(x, bump)).collect();
+            JsonValue::Array(bump.alloc_slice_fill_iter(v.into_iter()))
+        }
+        J::Obj(es) => {
+            let v: Vec<(&'a str, JsonValue<'a>)> = es.iter().map(|(k, x)| (k.as_str(), to_jv(x, bump))).collect();
+            JsonValue::Object(bump.alloc_slice_fill_iter(v.into_iter()))
+        }
+    }
+}
+
+/// kinds whose encoder is generic over `KeyBuffer`; `via` routes the nine `Value` kinds through
+/// `encode_value` instead of the per-type function. Returns false for the Vec-only kinds.
+fn enc_flat<B: KeyBuffer>(v: &V, buf: &mut B, bump: &Bump, via: bool) -> bool {
+    match v {
+        V::Null => {
+            if via { tk::encode_value(&KV::Null, buf) } else { tk::encode_null(buf) }
+        }
+        V::Bool(b) => {
+            if via { tk::encode_value(&KV::Bool(*b), buf) } else { tk::encode_bool(*b, buf) }
+        }
+        V::Int(n) => {
+            if via { tk::encode_value(&KV::Int(*n), buf) } else { tk::encode_int(*n, buf) }
+        }
+        V::Float(f) => {
+            if via { tk::encode_value(&KV::Float(*f), buf) } else { tk::encode_float(*f, buf) }
+        }
+        V::Text(s) => {
+            if via { tk::encode_value(&KV::Text(s.as_str()), buf) } else { tk::encode_text(s, buf) }
+        }
+        V::Blob(b) => {
+            if via { tk::encode_value(&KV::Blob(b.as_slice()), buf) } else { tk::encode_blob(b, buf) }
+        }
+        V::Date(d) => {
+            if via { tk::encode_value(&KV::Date(*d), buf) } else { tk::encode_date(*d, buf) }
+        }
+        V::Timestamp(t) => {
+            if via { tk::encode_value(&KV::Timestamp(*t), buf) } else { tk::encode_timestamp(*t, buf) }
+        }
+        V::Uuid(u) => {
+            if via { tk::encode_value(&KV::Uuid(u), buf) } else { tk::encode_uuid(u, buf) }
+        }
+        V::Time(t) => tk::encode_time(*t, buf),
+        V::TimestampTz(m, tz) => tk::encode_timestamptz(*m, *tz, buf),
+        V::Interval(mo, d, us) => tk::encode_interval(*mo, *d, *us, buf),
+        V::Inet(v6, addr, pl) => tk::encode_inet(*v6, addr, *pl, buf),
+        V::Mac(m) => tk::encode_macaddr(m, buf),
+        V::Enum(t, o) => tk::encode_enum(*t, *o, buf),
+        V::Vector(d) => tk::encode_vector(d, buf),
+        V::Json(j) => {
+            let jv = to_jv(j, bump);
+            tk::encode_json(&jv, buf)
+        }
+        _ => return false,
+    }
+    true
+}
+
+fn enc_v(v: &V, buf: &mut Vec<u8>, bump: &Bump, via: bool) {
+    if enc_flat(v, buf, bump, via) {
+        return;
+    }
+    match v {
+        V::Array(es) => tk::encode_array(es, buf, |e, b| enc_v(e, b, bump, via)),
+        V::Tuple(es) => tk::encode_tuple(es, buf, |e, b| enc_v(e, b, bump, via)),
+        V::Composite(t, fs) => tk::encode_composite(*t, fs, buf, |e, b| enc_v(e, b, bump, via)),
+        V::Domain(t, inner) => tk::encode_domain(*t, &**inner, buf, |e, b| enc_v(e, b, bump, via)),
+        V::Range { lo, hi, li, ui } => {
+            tk::encode_range(lo.as_deref(), hi.as_deref(), *li, *ui, buf, |e: &V, b| enc_v(e, b, bump, via))
+        }
+        _ => unreachable!(),
+    }
+}
+
+/// concatenation of the column encodings = a composite index key; `offs` gets the column ends
+fn enc_key(k: &[V], buf: &mut Vec<u8>, offs: &mut Vec<usize>, bump: &Bump, via: bool) {
+    for v in k {
+        enc_v(v, buf, bump, via);
+        offs.push(buf.len());
+    }
+}
+
+// ---------------------------------------------------------------------------------------------
+// decoded value vs original
+// ---------------------------------------------------------------------------------------------
+
+fn f64_ok(a: f64, x: f64) -> bool {
+    a.to_bits() == x.to_bits() || (a == 0.0 && x == 0.0) || (a.is_nan() && x.is_nan())
+}
+fn f32_ok(a: f32, x: f32) -> bool {
+    a.to_bits() == x.to_bits() || (a == 0.0 && x == 0.0) || (a.is_nan() && x.is_nan())
+}
+
+fn jmatches(j: &J, d: &DecodedJson) -> bool {
+    match (j, d) {
+        (J::Null, DecodedJson::Null) => true,
+        (J::Bool(a), DecodedJson::Bool(b)) => a == b,
+        (J::Num(a), DecodedJson::Number(b)) => f64_ok(*a, *b),
+        (J::Str(a), DecodedJson::String(b)) => a == b,
+        (J::Arr(a), DecodedJson::Array(b)) => a.len() == b.len() && a.iter().zip(b).all(|(x, y)| jmatches(x, y)),
+        (J::Obj(a), DecodedJson::Object(b)) => {
+            a.len() == b.len() && a.iter().zip(b).all(|((k1, x), (k2, y))| k1 == k2 && jmatches(x, y))
+        }
+        _ => false,
+    }
+}
+
+/// `decode(enc(v)) == v` up to the documented zero canonicalisation (int 0 / float +-0.0 decode as
+/// Int(0)); +-inf and NaN decode to their own variants.
+fn matches(v: &V, d: &DecodedKey) -> bool {
+    match (v, d) {
+        (V::Null, DecodedKey::Null) => true,
+        (V::Bool(a), DecodedKey::Bool(b)) => a == b,
+        (V::Int(a), DecodedKey::Int(b)) => a == b,
+        (V::Float(f), d) => {
+            if f.is_nan() {
+                matches!(d, DecodedKey::Nan)
+            } else if *f == f64::INFINITY {
+                matches!(d, DecodedKey::PosInfinity)
+            } else if *f == f64::NEG_INFINITY {
+                matches!(d, DecodedKey::NegInfinity)
+            } else if *f == 0.0 {
+                matches!(d, DecodedKey::Int(0))
+            } else {
+                matches!(d, DecodedKey::Float(x) if x.to_bits() == f.to_bits())
+            }
+        }
+        (V::Text(a), DecodedKey::Text(b)) => a == b,
+        (V::Blob(a), DecodedKey::Blob(b)) => a == b,
+        (V::Date(a), DecodedKey::Date(b)) => a == b,
+        (V::Time(a), DecodedKey::Time(b)) => a == b,
+        (V::Timestamp(a), DecodedKey::Timestamp(b)) => a == b,
+        (V::TimestampTz(m, tz), DecodedKey::TimestampTz { micros, tz_offset_mins }) => m == micros && tz == tz_offset_mins,
+        (V::Interval(mo, dd, us), DecodedKey::Interval { months, days, micros }) => mo == months && dd == days && us == micros,
+        (V::Uuid(a), DecodedKey::Uuid(b)) => a == b,
+        (V::Inet(v6, addr, pl), DecodedKey::Inet { is_ipv6, addr: a2, prefix_len }) => v6 == is_ipv6 && addr == a2 && pl == prefix_len,
+        (V::Mac(a), DecodedKey::MacAddr(b)) => a == b,
+        (V::Enum(t, o), DecodedKey::Enum { type_id, ordinal }) => t == type_id && o == ordinal,
+        (V::Vector(a), DecodedKey::Vector(b)) => a.len() == b.len() && a.iter().zip(b).all(|(x, y)| f32_ok(*x, *y)),
+        (V::Json(j), DecodedKey::Json(dj)) => jmatches(j, dj),
+        (V::Array(a), DecodedKey::Array(b)) | (V::Tuple(a), DecodedKey::Tuple(b)) => {
+            a.len() == b.len() && a.iter().zip(b).all(|(x, y)| matches(x, y))
+        }
+        (V::Composite(t, a), DecodedKey::Composite { type_id, fields }) => {
+            t == type_id && a.len() == fields.len() && a.iter().zip(fields).all(|(x, y)| matches(x, y))
+        }
+        (V::Domain(t, inner), DecodedKey::Domain { type_id, value }) => t == type_id && matches(inner, value),
+        (V::Range { lo, hi, li, ui }, DecodedKey::Range { lower, upper, lower_inclusive, upper_inclusive }) => {
+            let ob = |a: &Option<Box<V>>, b: &Option<Box<DecodedKey>>| match (a, b) {
+                (None, None) => true,
+                (Some(x), Some(y)) => matches(x, y),
+                _ => false,
+            };
+            li == lower_inclusive && ui == upper_inclusive && ob(lo, lower) && ob(hi, upper)
+        }
+        _ => false,
+    }
+}
+
+fn j_from_decoded(d: &DecodedJson) -> J {
+    match d {
+        DecodedJson::Null => J::Null,
+        DecodedJson::Bool(b) => J::Bool(*b),
+        DecodedJson::Number(n) => J::Num(*n),
+        DecodedJson::String(s) => J::Str(s.clone()),
+        DecodedJson::Array(xs) => J::Arr(xs.iter().map(j_from_decoded).collect()),
+        DecodedJson::Object(es) => J::Obj(es.iter().map(|(k, x)| (k.clone(), j_from_decoded(x))).collect()),
+    }
+}
+
+/// the value a decoded key denotes (used to build the "twin" of a value that failed to round-trip:
+/// if the twin is a different value with the same key, injectivity is broken too)
+fn from_decoded(d: &DecodedKey) -> V {
+    match d {
+        DecodedKey::Null => V::Null,
+        DecodedKey::Bool(b) => V::Bool(*b),
+        DecodedKey::Int(n) => V::Int(*n),
+        DecodedKey::Float(f) => V::Float(*f),
+        DecodedKey::NegInfinity => V::Float(f64::NEG_INFINITY),
+        DecodedKey::PosInfinity => V::Float(f64::INFINITY),
+        DecodedKey::Nan => V::Float(f64::NAN),
+        DecodedKey::Text(s) => V::Text(s.clone()),
+        DecodedKey::Blob(b) => V::Blob(b.clone()),
+        DecodedKey::Date(x) => V::Date(*x),
+        DecodedKey::Time(x) => V::Time(*x),
+        DecodedKey::Timestamp(x) => V::Timestamp(*x),
+        DecodedKey::TimestampTz { micros, tz_offset_mins } => V::TimestampTz(*micros, *tz_offset_mins),
+        DecodedKey::Interval { months, days, micros } => V::Interval(*months, *days, *micros),
+        DecodedKey::Uuid(u) => V::Uuid(*u),
+        DecodedKey::Inet { is_ipv6, addr, prefix_len } => V::Inet(*is_ipv6, addr.clone(), *prefix_len),
+        DecodedKey::MacAddr(m) => V::Mac(*m),
+        DecodedKey::Array(xs) => V::Array(xs.iter().map(from_decoded).collect()),
+        DecodedKey::Tuple(xs) => V::Tuple(xs.iter().map(from_decoded).collect()),
+        DecodedKey::Range { lower, upper, lower_inclusive, upper_inclusive } => V::Range {
+            lo: lower.as_ref().map(|b| Box::new(from_decoded(b))),
+            hi: upper.as_ref().map(|b| Box::new(from_decoded(b))),
+            li: *lower_inclusive,
+            ui: *upper_inclusive,
+        },
+        DecodedKey::Enum { type_id, ordinal } => V::Enum(*type_id, *ordinal),
+        DecodedKey::Composite { type_id, fields } => V::Composite(*type_id, fields.iter().map(from_decoded).collect()),
+        DecodedKey::Domain { type_id, value } => V::Domain(*type_id, Box::new(from_decoded(value))),
+        DecodedKey::Vector(d) => V::Vector(d.clone()),
+        DecodedKey::Json(j) => V::Json(j_from_decoded(j)),
+    }
+}
+
+// ---------------------------------------------------------------------------------------------
+// the documented order, defined independently of the crate
+// ---------------------------------------------------------------------------------------------
+
+#[derive(Clone, Copy, PartialEq, Eq, Debug)]
+enum Rel {
+    Lt,       // enc(a) < enc(b) required
+    Gt,       // enc(a) > enc(b) required
+    Same,     // same value (or documented sharing): keys must be equal
+    Distinct, // different values, no documented order: keys must differ
+    Free,     // nothing promised
+}
+
+fn from_ord(o: Ordering) -> Rel {
+    match o {
+        Ordering::Less => Rel::Lt,
+        Ordering::Greater => Rel::Gt,
+        Ordering::Equal => Rel::Same,
+    }
+}
+
+fn jident(a: &J, b: &J) -> bool {
+    match (a, b) {
+        (J::Null, J::Null) => true,
+        (J::Bool(x), J::Bool(y)) => x == y,
+        (J::Num(x), J::Num(y)) => x.to_bits() == y.to_bits(),
+        (J::Str(x), J::Str(y)) => x == y,
+        (J::Arr(x), J::Arr(y)) => x.len() == y.len() && x.iter().zip(y).all(|(p, q)| jident(p, q)),
+        (J::Obj(x), J::Obj(y)) => x.len() == y.len() && x.iter().zip(y).all(|((k1, p), (k2, q))| k1 == k2 && jident(p, q)),
+        _ => false,
+    }
+}
+
+/// bit-for-bit structural identity
+fn ident(a: &V, b: &V) -> bool {
+    let ob = |x: &Option<Box<V>>, y: &Option<Box<V>>| match (x, y) {
+        (None, None) => true,
+        (Some(p), Some(q)) => ident(p, q),
+        _ => false,
+    };
+    match (a, b) {
+        (V::Null, V::Null) => true,
+        (V::Bool(x), V::Bool(y)) => x == y,
+        (V::Int(x), V::Int(y)) => x == y,
+        (V::Float(x), V::Float(y)) => x.to_bits() == y.to_bits(),
+        (V::Text(x), V::Text(y)) => x == y,
+        (V::Blob(x), V::Blob(y)) => x == y,
+        (V::Date(x), V::Date(y)) => x == y,
+        (V::Time(x), V::Time(y)) => x == y,
+        (V::Timestamp(x), V::Timestamp(y)) => x == y,
+        (V::TimestampTz(x, t), V::TimestampTz(y, u)) => x == y && t == u,
+        (V::Interval(a1, a2, a3), V::Interval(b1, b2, b3)) => a1 == b1 && a2 == b2 && a3 == b3,
+        (V::Uuid(x), V::Uuid(y)) => x == y,
+        (V::Inet(f, x, p), V::Inet(g, y, q)) => f == g && x == y && p == q,
+        (V::Mac(x), V::Mac(y)) => x == y,
+        (V::Enum(t, o), V::Enum(u, p)) => t == u && o == p,
+        (V::Vector(x), V::Vector(y)) => x.len() == y.len() && x.iter().zip(y).all(|(p, q)| p.to_bits() == q.to_bits()),
+        (V::Json(x), V::Json(y)) => jident(x, y),
+        (V::Array(x), V::Array(y)) | (V::Tuple(x), V::Tuple(y)) => x.len() == y.len() && x.iter().zip(y).all(|(p, q)| ident(p, q)),
+        (V::Composite(t, x), V::Composite(u, y)) => t == u && x.len() == y.len() && x.iter().zip(y).all(|(p, q)| ident(p, q)),
+        (V::Domain(t, x), V::Domain(u, y)) => t == u && ident(x, y),
+        (V::Range { lo, hi, li, ui }, V::Range { lo: lo2, hi: hi2, li: li2, ui: ui2 }) => li == li2 && ui == ui2 && ob(lo, lo2) && ob(hi, hi2),
+        _ => false,
+    }
+}
+
+/// documented cross-type ranking ("Type Prefix Scheme" table of the module docs):
+/// NULL < booleans < numbers < strings (TEXT < BLOB) < date/time < special (UUID, INET, MACADDR)
+/// < JSON < composite (ARRAY, TUPLE, RANGE, ENUM, COMPOSITE, DOMAIN) < VECTOR
+fn rank(v: &V) -> (u8, u8) {
+    match v {
+        V::Null => (0, 0),
+        V::Bool(_) => (1, 0),
+        V::Int(_) | V::Float(_) => (2, 0),
+        V::Text(_) => (3, 0),
+        V::Blob(_) => (3, 1),
+        V::Date(_) => (4, 0),
+        V::Time(_) => (4, 1),
+        V::Timestamp(_) => (4, 2),
+        V::TimestampTz(..) => (4, 3),
+        V::Interval(..) => (4, 4),
+        V::Uuid(_) => (5, 0),
+        V::Inet(..) => (5, 1),
+        V::Mac(_) => (5, 2),
+        V::Json(_) => (6, 0),
+        V::Array(_) => (7, 0),
+        V::Tuple(_) => (7, 1),
+        V::Range { .. } => (7, 2),
+        V::Enum(..) => (7, 3),
+        V::Composite(..) => (7, 4),
+        V::Domain(..) => (7, 5),
+        V::Vector(_) => (8, 0),
+    }
+}
+
+/// documented first-byte range per type group
+fn prefix_range(v: &V) -> (u8, u8) {
+    match rank(v).0 {
+        0 => (0x01, 0x01),
+        1 => (0x02, 0x03),
+        2 => (0x10, 0x19),
+        3 => (0x20, 0x21),
+        4 => (0x30, 0x34),
+        5 => (0x40, 0x42),
+        6 => (0x50, 0x56),
+        7 => (0x60, 0x65),
+        _ => (0x70, 0x70),
+    }
+}
+
+/// -inf 0 < negatives 1 < zero 2 < positives 3 < +inf 4 < NaN 5
+fn numclass(v: &V) -> u8 {
+    match v {
+        V::Int(n) => {
+            if *n < 0 { 1 } else if *n == 0 { 2 } else { 3 }
+        }
+        V::Float(f) => {
+            if f.is_nan() { 5 } else if *f == f64::NEG_INFINITY { 0 } else if *f == f64::INFINITY { 4 } else if *f < 0.0 { 1 } else if *f == 0.0 { 2 } else { 3 }
+        }
+        _ => unreachable!(),
+    }
+}
+
+/// exact comparison of an i64 with a finite f64
+fn cmp_i64_f64(i: i64, f: f64) -> Ordering {
+    if f >= 9223372036854775808.0 {
+        return Ordering::Less;
+    }
+    if f < -9223372036854775808.0 {
+        return Ordering::Greater;
+    }
+    let t = f.trunc();
+    let ti = t as i64;
+    match i.cmp(&ti) {
+        Ordering::Equal => {
+            let frac = f - t;
+            if frac > 0.0 { Ordering::Less } else if frac < 0.0 { Ordering::Greater } else { Ordering::Equal }
+        }
+        o => o,
+    }
+}
+
+#[derive(Default)]
+struct Note {
+    /// the deciding position was an int vs a float of the same sign class: numeric order (a vs b)
+    mixed: Option<Ordering>,
+}
+
+fn rel_seq<T>(xs: &[T], ys: &[T], mut f: impl FnMut(&T, &T) -> Rel) -> Rel {
+    for (x, y) in xs.iter().zip(ys) {
+        let r = f(x, y);
+        if r != Rel::Same {
+            return r;
+        }
+    }
+    from_ord(xs.len().cmp(&ys.len()))
+}
+
+fn jrank(j: &J) -> u8 {
+    match j {
+        J::Null => 0,
+        J::Bool(false) => 1,
+        J::Bool(true) => 2,
+        J::Num(_) => 3,
+        J::Str(_) => 4,
+        J::Arr(_) => 5,
+        J::Obj(_) => 6,
+    }
+}
+
+fn jrel(a: &J, b: &J) -> Rel {
+    if jident(a, b) {
+        return Rel::Same;
+    }
+    let (ra, rb) = (jrank(a), jrank(b));
+    if ra != rb {
+        return from_ord(ra.cmp(&rb));
+    }
+    match (a, b) {
+        (J::Num(x), J::Num(y)) => {
+            if !x.is_finite() || !y.is_finite() {
+                return Rel::Free; // not JSON numbers: nothing documented
+            }
+            match x.partial_cmp(y) {
+                Some(Ordering::Less) => Rel::Lt,
+                Some(Ordering::Greater) => Rel::Gt,
+                _ => Rel::Free, // -0.0 vs +0.0: equal numbers, sharing not documented for JSON
+            }
+        }
+        (J::Str(x), J::Str(y)) => from_ord(x.as_bytes().cmp(y.as_bytes())),
+        (J::Arr(x), J::Arr(y)) => rel_seq(x, y, |p, q| jrel(p, q)),
+        (J::Obj(x), J::Obj(y)) => {
+            // same key sequence: decided by the first differing value; different key *sets*:
+            // different values; same keys in another order: equal as JSON values, nothing promised
+            if x.len() == y.len() && x.iter().zip(y).all(|((k1, _), (k2, _))| k1 == k2) {
+                for ((_, p), (_, q)) in x.iter().zip(y) {
+                    match jrel(p, q) {
+                        Rel::Same => {}
+                        Rel::Free => return Rel::Free,
+                        _ => return Rel::Distinct,
+                    }
+                }
+                Rel::Same
+            } else {
+                let mut k1: Vec<&str> = x.iter().map(|e| e.0.as_str()).collect();
+                let mut k2: Vec<&str> = y.iter().map(|e| e.0.as_str()).collect();
+                k1.sort();
+                k2.sort();
+                if k1 != k2 { Rel::Distinct } else { Rel::Free }
+            }
+        }
+        _ => Rel::Free,
+    }
+}
+
+/// the documented relation between two values
+fn rel(a: &V, b: &V, note: &mut Note) -> Rel {
+    if ident(a, b) {
+        return Rel::Same;
+    }
+    let (ra, rb) = (rank(a), rank(b));
+    if ra != rb {
+        return from_ord(ra.cmp(&rb));
+    }
+    let bound = |x: &Option<Box<V>>, y: &Option<Box<V>>, note: &mut Note| -> Option<Rel> {
+        match (x, y) {
+            (None, None) => Some(Rel::Same),
+            (Some(p), Some(q)) => Some(rel(p, q, note)),
+            _ => None,
+        }
+    };
+    match (a, b) {
+        (V::Int(_) | V::Float(_), V::Int(_) | V::Float(_)) => {
+            let (ca, cb) = (numclass(a), numclass(b));
+            if ca != cb {
+                return from_ord(ca.cmp(&cb));
+            }
+            match (a, b) {
+                (V::Int(x), V::Int(y)) => from_ord(x.cmp(y)),
+                (V::Float(x), V::Float(y)) => match ca {
+                    1 | 3 => from_ord(x.partial_cmp(y).unwrap()),
+                    5 => Rel::Free, // NaN payloads
+                    _ => Rel::Same, // +-0.0, equal infinities
+                },
+                (V::Int(x), V::Float(y)) => {
+                    if ca == 2 {
+                        Rel::Same // documented: int 0 and float 0.0 share the ZERO key
+                    } else {
+                        note.mixed = Some(cmp_i64_f64(*x, *y));
+                        Rel::Free
+                    }
+                }
+                (V::Float(x), V::Int(y)) => {
+                    if ca == 2 {
+                        Rel::Same
+                    } else {
+                        note.mixed = Some(cmp_i64_f64(*y, *x).reverse());
+                        Rel::Free
+                    }
+                }
+                _ => unreachable!(),
+            }
+        }
+        (V::Bool(x), V::Bool(y)) => from_ord(x.cmp(y)),
+        (V::Text(x), V::Text(y)) => from_ord(x.as_bytes().cmp(y.as_bytes())),
+        (V::Blob(x), V::Blob(y)) => from_ord(x.cmp(y)),
+        (V::Date(x), V::Date(y)) => from_ord(x.cmp(y)),
+        (V::Time(x), V::Time(y)) => from_ord(x.cmp(y)),
+        (V::Timestamp(x), V::Timestamp(y)) => from_ord(x.cmp(y)),
+        (V::TimestampTz(x, _), V::TimestampTz(y, _)) => {
+            if x != y { from_ord(x.cmp(y)) } else { Rel::Distinct }
+        }
+        (V::Interval(a1, a2, a3), V::Interval(b1, b2, b3)) => {
+            let le = a1 <= b1 && a2 <= b2 && a3 <= b3;
+            let ge = a1 >= b1 && a2 >= b2 && a3 >= b3;
+            if le { Rel::Lt } else if ge { Rel::Gt } else { Rel::Distinct }
+        }
+        (V::Uuid(x), V::Uuid(y)) => from_ord(x.cmp(y)),
+        (V::Mac(x), V::Mac(y)) => from_ord(x.cmp(y)),
+        (V::Inet(..), V::Inet(..)) => Rel::Distinct,
+        (V::Enum(t, o), V::Enum(u, p)) => {
+            if t == u { from_ord(o.cmp(p)) } else { Rel::Distinct }
+        }
+        (V::Vector(x), V::Vector(y)) => {
+            if x.len() != y.len() {
+                return Rel::Distinct;
+            }
+            let definitely = x.iter().zip(y).any(|(p, q)| (p.is_nan() != q.is_nan()) || (!p.is_nan() && !q.is_nan() && p != q));
+            if definitely { Rel::Distinct } else { Rel::Free }
+        }
+        (V::Json(x), V::Json(y)) => jrel(x, y),
+        (V::Array(x), V::Array(y)) | (V::Tuple(x), V::Tuple(y)) => rel_seq(x, y, |p, q| rel(p, q, note)),
+        (V::Composite(t, x), V::Composite(u, y)) => {
+            if t != u { Rel::Distinct } else { rel_seq(x, y, |p, q| rel(p, q, note)) }
+        }
+        (V::Domain(t, x), V::Domain(u, y)) => {
+            if t != u { Rel::Distinct } else { rel(x, y, note) }
+        }
+        (V::Range { lo, hi, li, ui }, V::Range { lo: lo2, hi: hi2, li: li2, ui: ui2 }) => {
+            let mut free = false;
+            if li != li2 {
+                if lo.is_some() || lo2.is_some() { return Rel::Distinct } else { free = true }
+            }
+            if ui != ui2 {
+                if hi.is_some() || hi2.is_some() { return Rel::Distinct } else { free = true }
+            }
+            for (p, q) in [(lo, lo2), (hi, hi2)] {
+                match bound(p, q, note) {
+                    None => return Rel::Distinct,
+                    Some(Rel::Same) => {}
+                    Some(Rel::Free) => return Rel::Free,
+                    Some(_) => return Rel::Distinct,
+                }
+            }
+            if free { Rel::Free } else { Rel::Same }
+        }
+        _ => Rel::Free,
+    }
+}
+
+/// composite keys: column by column; a key that is a proper column-prefix of another sorts first
+fn rel_key(a: &[V], b: &[V], note: &mut Note) -> (Rel, usize) {
+    for (i, (x, y)) in a.iter().zip(b).enumerate() {
+        let r = rel(x, y, note);
+        if r != Rel::Same {
+            return (r, i);
+        }
+    }
+    (from_ord(a.len().cmp(&b.len())), a.len().min(b.len()))
+}
+
+// ---------------------------------------------------------------------------------------------
+// the checks
+// ---------------------------------------------------------------------------------------------
+
+#[derive(Clone, Debug)]
+struct Fail {
+    assertion: &'static str,
+    kind: String,
+    info: String,
+}
+
+fn fail(assertion: &'static str, kind: &str, info: String) -> Option<Fail> {
+    Some(Fail { assertion, kind: kind.to_string(), info })
+}
+
+fn hex(b: &[u8]) -> String {
+    let mut s = String::with_capacity(b.len() * 2);
+    for x in b.iter().take(96) {
+        s.push_str(&format!("{:02x}", x));
+    }
+    if b.len() > 96 {
+        s.push_str("..");
+    }
+    s
+}
+
+/// error text without the concrete byte values, for signatures
+fn err_class(e: &str) -> String {
+    let e = e.split(':').next().unwrap_or(e);
+    e.trim().replace(' ', "_")
+}
+
+struct KeyOut {
+    enc: Vec<u8>,
+    decoded: Option<Vec<DecodedKey>>,
+    fail: Option<Fail>,
+}
+
+/// encode one (composite) key through the real code, decode it column by column, compare
+fn check_key(k: &[V], bump: &Bump, alt: bool) -> KeyOut {
+    let mut enc = Vec::with_capacity(32);
+    let mut offs = Vec::with_capacity(k.len());
+    let r = catch(|| {
+        enc_key(k, &mut enc, &mut offs, bump, false);
+    });
+    if let Err(p) = r {
+        return KeyOut { enc, decoded: None, fail: fail("no_panic", &format!("encode@{}", panic_site(&p)), p) };
+    }
+    // documented first-byte range of every column, and everything below the MAX_KEY sentinel
+    let mut start = 0;
+    for (v, end) in k.iter().zip(&offs) {
+        let (lo, hi) = prefix_range(v);
+        if *end <= start || enc[start] < lo || enc[start] > hi || enc[start] == 0xFF {
+            let f = fail("prefix_range", "first_byte_outside_documented_range", format!("first byte {:02x?} expected {:02x}..={:02x}", enc.get(start), lo, hi));
+            return KeyOut { enc, decoded: None, fail: f };
+        }
+        start = *end;
+    }
+    if alt {
+        // encode_value path and a SmallVec buffer must give the same bytes
+        let r = catch(|| {
+            let mut e2 = Vec::with_capacity(enc.len());
+            let mut o2 = vec![];
+            enc_key(k, &mut e2, &mut o2, bump, true);
+            let mut sv_ok = true;
+            let mut start = 0;
+            for (v, end) in k.iter().zip(&offs) {
+                let mut sv: SmallVec<[u8; 24]> = SmallVec::new();
+                if enc_flat(v, &mut sv, bump, false) && sv.as_slice() != &enc[start..*end] {
+                    sv_ok = false;
+                }
+                start = *end;
+            }
+            (e2, sv_ok)
+        });
+        match r {
+            Err(p) => return KeyOut { enc, decoded: None, fail: fail("no_panic", &format!("encode_alt@{}", panic_site(&p)), p) },
+            Ok((e2, sv_ok)) => {
+                if e2 != enc {
+                    let f = fail("alt_paths_agree", "encode_value_differs_from_encode_fn", format!("{} vs {}", hex(&e2), hex(&enc)));
+                    return KeyOut { enc, decoded: None, fail: f };
+                }
+                if !sv_ok {
+                    let f = fail("alt_paths_agree", "smallvec_buffer_differs", hex(&enc));
+                    return KeyOut { enc, decoded: None, fail: f };
+                }
+            }
+        }
+    }
+    // decode column by column
+    let r = catch(|| {
+        let mut out: Vec<Result<(DecodedKey, usize), String>> = Vec::with_capacity(k.len());
+        let mut off = 0;
+        for end in &offs {
+            // the decoder sees the rest of the composite key, as an index scan would
+            match tk::decode_key(&enc[off..]) {
+                Ok((d, used)) => out.push(Ok((d, used))),
+                Err(e) => out.push(Err(e.to_string())),
+            }
+            off = *end;
+        }
+        out
+    });
+    let out = match r {
+        Err(p) => return KeyOut { enc, decoded: None, fail: fail("no_panic", &format!("decode@{}", panic_site(&p)), p) },
+        Ok(o) => o,
+    };
+    let mut decoded = Vec::with_capacity(k.len());
+    let mut f = None;
+    let mut start = 0;
+    for ((v, end), r) in k.iter().zip(&offs).zip(out) {
+        match r {
+            Err(e) => {
+                f = f.or(fail("decode_round_trip", &format!("err:{}", err_class(&e)), e));
+            }
+            Ok((d, used)) => {
+                if used != end - start {
+                    f = f.or(fail("decode_round_trip", "consumed", format!("consumed {} of a {}-byte column; decoded {:?}", used, end - start, d)));
+                } else if !matches(v, &d) {
+                    f = f.or(fail("decode_round_trip", "value", format!("decoded {:?}", d)));
+                }
+                decoded.push(d);
+            }
+        }
+        start = *end;
+    }
+    let decoded = if decoded.len() == k.len() { Some(decoded) } else { None };
+    KeyOut { enc, decoded, fail: f }
+}
+
+struct PairOut {
+    rel: Rel,
+    col: usize,
+    fail: Option<Fail>,
+    mixed_disagree: Option<bool>,
+}
+
+/// compare the two encodings against the documented relation
+fn judge(a: &[V], b: &[V], ea: &[u8], eb: &[u8]) -> PairOut {
+    let mut note = Note::default();
+    let (r, col) = rel_key(a, b, &mut note);
+    let c = ea.cmp(eb);
+    let multi = a.len() > 1 || b.len() > 1;
+    let ord_name: &'static str = if multi { "composite_order" } else { "order_iso" };
+    let info = || format!("memcmp={:?} documented={:?} at column {}; enc(a)={} enc(b)={}", c, r, col, hex(ea), hex(eb));
+    let f = match r {
+        Rel::Lt | Rel::Gt => {
+            let want = if r == Rel::Lt { Ordering::Less } else { Ordering::Greater };
+            if c == Ordering::Equal {
+                fail("injective", "distinct_values_equal_keys", info())
+            } else if c != want {
+                fail(ord_name, "wrong_order", info())
+            } else {
+                None
+            }
+        }
+        Rel::Same => {
+            if c != Ordering::Equal { fail("deterministic", "same_value_unequal_keys", info()) } else { None }
+        }
+        Rel::Distinct => {
+            if c == Ordering::Equal { fail("injective", "distinct_values_equal_keys", info()) } else { None }
+        }
+        Rel::Free => None,
+    };
+    let mixed_disagree = match (r, note.mixed) {
+        (Rel::Free, Some(num)) => Some(num != c),
+        _ => None,
+    };
+    PairOut { rel: r, col, fail: f, mixed_disagree }
+}
+
+fn encode_plain(k: &[V], bump: &Bump) -> Option<Vec<u8>> {
+    let mut e = vec![];
+    let mut o = vec![];
+    catch(|| enc_key(k, &mut e, &mut o, bump, false)).ok()?;
+    Some(e)
+}
+
+/// pair check from scratch (used by the shrinker)
+fn pair_fails(a: &[V], b: &[V], bump: &Bump) -> Option<Fail> {
+    let ea = encode_plain(a, bump)?;
+    let eb = encode_plain(b, bump)?;
+    judge(a, b, &ea, &eb).fail
+}
+
+// ---------------------------------------------------------------------------------------------
+// shapes (for signatures) and shrinking (so that one defect gets one signature)
+// ---------------------------------------------------------------------------------------------
+
+fn fclass(neg: bool, nan: bool, inf: bool, zero: bool) -> &'static str {
+    match (nan, inf, zero, neg) {
+        (true, _, _, false) => "nan",
+        (true, _, _, true) => "-nan",
+        (_, true, _, false) => "inf",
+        (_, true, _, true) => "-inf",
+        (_, _, true, false) => "0",
+        (_, _, true, true) => "-0",
+        (_, _, _, false) => "+",
+        (_, _, _, true) => "-",
+    }
+}
+fn f64class(f: f64) -> &'static str {
+    fclass(f.is_sign_negative(), f.is_nan(), f.is_infinite(), f == 0.0)
+}
+fn f32class(f: f32) -> &'static str {
+    fclass(f.is_sign_negative(), f.is_nan(), f.is_infinite(), f == 0.0)
+}
+fn bytes_flags(b: &[u8]) -> String {
+    let mut s = String::new();
+    if b.is_empty() {
+        s.push_str("{e}");
+    }
+    if b.first() == Some(&0) {
+        s.push_str("{^00}");
+    } else if b.contains(&0) {
+        s.push_str("{00}");
+    }
+    if b.contains(&0xFF) {
+        s.push_str("{ff}");
+    }
+    s
+}
+fn jshape(j: &J) -> String {
+    match j {
+        J::Null => "null".into(),
+        J::Bool(_) => "bool".into(),
+        J::Num(n) => format!("num:{}", f64class(*n)),
+        J::Str(s) => format!("str{}", bytes_flags(s.as_bytes())),
+        J::Arr(xs) => format!("arr[{}]", xs.iter().map(jshape).collect::<Vec<_>>().join(",")),
+        J::Obj(es) => format!("obj{{{}}}", es.iter().map(|(k, x)| format!("k{}:{}", bytes_flags(k.as_bytes()), jshape(x))).collect::<Vec<_>>().join(",")),
+    }
+}
+fn shape(v: &V) -> String {
+    let seq = |xs: &[V]| xs.iter().map(shape).collect::<Vec<_>>().join(",");
+    match v {
+        V::Null => "null".into(),
+        V::Bool(_) => "bool".into(),
+        V::Int(n) => (if *n == 0 { "int0" } else if *n < 0 { "int-" } else { "int+" }).into(),
+        V::Float(f) => format!("f64:{}", f64class(*f)),
+        V::Text(s) => format!("text{}", bytes_flags(s.as_bytes())),
+        V::Blob(b) => format!("blob{}", bytes_flags(b)),
+        V::Date(_) => "date".into(),
+        V::Time(_) => "time".into(),
+        V::Timestamp(_) => "timestamp".into(),
+        V::TimestampTz(..) => "timestamptz".into(),
+        V::Interval(..) => "interval".into(),
+        V::Uuid(_) => "uuid".into(),
+        V::Inet(v6, _, _) => (if *v6 { "inet6" } else { "inet4" }).into(),
+        V::Mac(_) => "macaddr".into(),
+        V::Enum(..) => "enum".into(),
+        V::Vector(d) => format!("vector[{}]", d.iter().map(|x| f32class(*x)).collect::<Vec<_>>().join(",")),
+        V::Json(j) => format!("json:{}", jshape(j)),
+        V::Array(xs) => format!("array[{}]", seq(xs)),
+        V::Tuple(xs) => format!("tuple[{}]", seq(xs)),
+        V::Composite(_, xs) => format!("composite[{}]", seq(xs)),
+        V::Domain(_, x) => format!("domain[{}]", shape(x)),
+        V::Range { lo, hi, .. } => format!("range[{};{}]", lo.as_ref().map(|x| shape(x)).unwrap_or_default(), hi.as_ref().map(|x| shape(x)).unwrap_or_default()),
+    }
+}
+fn key_shape(k: &[V]) -> String {
+    format!("({})", k.iter().map(shape).collect::<Vec<_>>().join(","))
+}
+
+fn w_int(n: i64) -> u64 {
+    match n {
+        0 => 1,
+        1 | -1 => 2,
+        _ => 3,
+    }
+}
+fn w_f64(f: f64) -> u64 {
+    let b = f.to_bits();
+    if b == 0 {
+        1
+    } else if f == 1.0 || f == -1.0 {
+        2
+    } else if b == 0x7ff8_0000_0000_0000 || b == 0xfff8_0000_0000_0000 || b == 0x8000_0000_0000_0000 {
+        3
+    } else {
+        4
+    }
+}
+fn w_f32(f: f32) -> u64 {
+    let b = f.to_bits();
+    if b == 0 {
+        1
+    } else if f == 1.0 || f == -1.0 {
+        2
+    } else if b == 0x7fc0_0000 || b == 0xffc0_0000 || b == 0x8000_0000 {
+        3
+    } else {
+        4
+    }
+}
+fn w_bytes(b: &[u8]) -> u64 {
+    1 + b.iter().map(|x| if *x == b'a' { 2 } else { 3 }).sum::<u64>()
+}
+fn w_str(s: &str) -> u64 {
+    1 + s.chars().map(|c| if c == 'a' { 2 } else { 3 }).sum::<u64>()
+}
+fn jweight(j: &J) -> u64 {
+    match j {
+        J::Null => 1,
+        J::Bool(b) => 2 + *b as u64,
+        J::Num(n) => 1 + w_f64(*n),
+        J::Str(s) => 1 + w_str(s),
+        J::Arr(xs) => 3 + xs.iter().map(jweight).sum::<u64>(),
+        J::Obj(es) => 3 + es.iter().map(|(k, x)| w_str(k) + jweight(x)).sum::<u64>(),
+    }
+}
+fn weight(v: &V) -> u64 {
+    if matches!(v, V::Null) { 1 } else { 1 + weight_inner(v) }
+}
+fn weight_inner(v: &V) -> u64 {
+    let seq = |xs: &[V]| xs.iter().map(weight).sum::<u64>();
+    match v {
+        V::Null => 1,
+        V::Bool(b) => 1 + *b as u64,
+        V::Int(n) => w_int(*n),
+        V::Float(f) => w_f64(*f),
+        V::Text(s) => w_str(s),
+        V::Blob(b) => w_bytes(b),
+        V::Date(d) => w_int(*d as i64),
+        V::Time(t) | V::Timestamp(t) => w_int(*t),
+        V::TimestampTz(m, tz) => w_int(*m) + w_int(*tz as i64),
+        V::Interval(a, b, c) => w_int(*a as i64) + w_int(*b as i64) + w_int(*c),
+        V::Uuid(u) => 1 + u.iter().filter(|x| **x != 0).count() as u64,
+        V::Inet(v6, addr, pl) => 1 + 20 * *v6 as u64 + addr.iter().filter(|x| **x != 0).count() as u64 + (*pl != 0) as u64,
+        V::Mac(m) => 1 + m.iter().filter(|x| **x != 0).count() as u64,
+        V::Enum(t, o) => 1 + (*t != 0) as u64 + w_int(*o as i64),
+        V::Vector(d) => 2 + d.iter().map(|x| w_f32(*x)).sum::<u64>(),
+        V::Json(j) => 1 + jweight(j),
+        V::Array(xs) | V::Tuple(xs) => 2 + seq(xs),
+        V::Composite(t, xs) => 2 + (*t != 0) as u64 + seq(xs),
+        V::Domain(t, x) => 2 + (*t != 0) as u64 + weight(x),
+        V::Range { lo, hi, li, ui } => 2 + *li as u64 + *ui as u64 + lo.as_ref().map(|x| weight(x)).unwrap_or(0) + hi.as_ref().map(|x| weight(x)).unwrap_or(0),
+    }
+}
+
+fn sh_int(n: i64) -> Vec<i64> {
+    [0, 1, -1, n / 2].into_iter().filter(|x| *x != n).collect()
+}
+fn sh_f64(f: f64) -> Vec<f64> {
+    [0.0, 1.0, -1.0, f64::from_bits(0x7ff8_0000_0000_0000), f64::from_bits(0xfff8_0000_0000_0000), -0.0].into_iter().filter(|x| x.to_bits() != f.to_bits()).collect()
+}
+fn sh_f32(f: f32) -> Vec<f32> {
+    [0.0, 1.0, -1.0, f32::from_bits(0x7fc0_0000), f32::from_bits(0xffc0_0000), -0.0].into_iter().filter(|x| x.to_bits() != f.to_bits()).collect()
+}
+fn sh_str(s: &str) -> Vec<String> {
+    let cs: Vec<char> = s.chars().collect();
+    let mut out = vec![];
+    for i in 0..cs.len() {
+        let mut c = cs.clone();
+        c.remove(i);
+        out.push(c.into_iter().collect());
+    }
+    for i in 0..cs.len() {
+        if cs[i] != 'a' {
+            let mut c = cs.clone();
+            c[i] = 'a';
+            out.push(c.into_iter().collect());
+        }
+    }
+    out
+}
+fn sh_bytes(b: &[u8]) -> Vec<Vec<u8>> {
+    let mut out = vec![];
+    for i in 0..b.len() {
+        let mut c = b.to_vec();
+        c.remove(i);
+        out.push(c);
+    }
+    for i in 0..b.len() {
+        if b[i] != b'a' {
+            let mut c = b.to_vec();
+            c[i] = b'a';
+            out.push(c);
+        }
+    }
+    out
+}
+fn sh_zero_bytes<const N: usize>(b: &[u8; N]) -> Vec<[u8; N]> {
+    let mut out = vec![];
+    if b.iter().any(|x| *x != 0) {
+        out.push([0u8; N]);
+    }
+    for i in 0..N {
+        if b[i] != 0 {
+            let mut c = *b;
+            c[i] = 0;
+            out.push(c);
+        }
+    }
+    out
+}
+fn sh_seq<T: Clone>(xs: &[T], sh: impl Fn(&T) -> Vec<T>) -> Vec<Vec<T>> {
+    let mut out = vec![];
+    for i in 0..xs.len() {
+        let mut c = xs.to_vec();
+        c.remove(i);
+        out.push(c);
+    }
+    for i in 0..xs.len() {
+        for s in sh(&xs[i]) {
+            let mut c = xs.to_vec();
+            c[i] = s;
+            out.push(c);
+        }
+    }
+    out
+}
+fn jshrinks(j: &J) -> Vec<J> {
+    let mut out = jshrinks_inner(j);
+    if !matches!(j, J::Null) {
+        out.insert(0, J::Null);
+    }
+    out
+}
+fn jshrinks_inner(j: &J) -> Vec<J> {
+    match j {
+        J::Null => vec![],
+        J::Bool(b) => if *b { vec![J::Bool(false)] } else { vec![] },
+        J::Num(n) => sh_f64(*n).into_iter().filter(|x| x.is_finite()).map(J::Num).collect(),
+        J::Str(s) => sh_str(s).into_iter().map(J::Str).collect(),
+        J::Arr(xs) => {
+            let mut out: Vec<J> = xs.clone();
+            out.extend(sh_seq(xs, jshrinks).into_iter().map(J::Arr));
+            out
+        }
+        J::Obj(es) => {
+            let mut out: Vec<J> = es.iter().map(|e| e.1.clone()).collect();
+            let cands = sh_seq(es, |(k, x)| {
+                let mut v: Vec<(String, J)> = sh_str(k).into_iter().map(|k2| (k2, x.clone())).collect();
+                v.extend(jshrinks(x).into_iter().map(|x2| (k.clone(), x2)));
+                v
+            });
+            for c in cands {
+                // keys stay distinct
+                let mut ks: Vec<&str> = c.iter().map(|e| e.0.as_str()).collect();
+                ks.sort();
+                ks.dedup();
+                if ks.len() == c.len() {
+                    out.push(J::Obj(c));
+                }
+            }
+            out
+        }
+    }
+}
+fn shrinks(v: &V) -> Vec<V> {
+    let mut out = shrinks_inner(v);
+    if !matches!(v, V::Null) {
+        out.push(V::Null); // last resort: the type does not matter for the failure
+    }
+    out
+}
+fn shrinks_inner(v: &V) -> Vec<V> {
+    match v {
+        V::Null => vec![],
+        V::Bool(b) => if *b { vec![V::Bool(false)] } else { vec![] },
+        V::Int(n) => sh_int(*n).into_iter().map(V::Int).collect(),
+        V::Float(f) => sh_f64(*f).into_iter().map(V::Float).collect(),
+        V::Text(s) => sh_str(s).into_iter().map(V::Text).collect(),
+        V::Blob(b) => sh_bytes(b).into_iter().map(V::Blob).collect(),
+        V::Date(d) => sh_int(*d as i64).into_iter().map(|x| V::Date(x as i32)).collect(),
+        V::Time(t) => sh_int(*t).into_iter().map(V::Time).collect(),
+        V::Timestamp(t) => sh_int(*t).into_iter().map(V::Timestamp).collect(),
+        V::TimestampTz(m, tz) => {
+            let mut out: Vec<V> = sh_int(*m).into_iter().map(|x| V::TimestampTz(x, *tz)).collect();
+            out.extend(sh_int(*tz as i64).into_iter().map(|x| V::TimestampTz(*m, x as i16)));
+            out
+        }
+        V::Interval(a, b, c) => {
+            let mut out: Vec<V> = sh_int(*a as i64).into_iter().map(|x| V::Interval(x as i32, *b, *c)).collect();
+            out.extend(sh_int(*b as i64).into_iter().map(|x| V::Interval(*a, x as i32, *c)));
+            out.extend(sh_int(*c).into_iter().map(|x| V::Interval(*a, *b, x)));
+            out
+        }
+        V::Uuid(u) => sh_zero_bytes(u).into_iter().map(V::Uuid).collect(),
+        V::Mac(m) => sh_zero_bytes(m).into_iter().map(V::Mac).collect(),
+        V::Inet(v6, addr, pl) => {
+            let mut out = vec![];
+            if *v6 {
+                out.push(V::Inet(false, addr[..4].to_vec(), *pl));
+            }
+            if *pl != 0 {
+                out.push(V::Inet(*v6, addr.clone(), 0));
+            }
+            for i in 0..addr.len() {
+                if addr[i] != 0 {
+                    let mut c = addr.clone();
+                    c[i] = 0;
+                    out.push(V::Inet(*v6, c, *pl));
+                }
+            }
+            out
+        }
+        V::Enum(t, o) => {
+            let mut out = vec![];
+            if *t != 0 {
+                out.push(V::Enum(0, *o));
+            }
+            out.extend(sh_int(*o as i64).into_iter().filter(|x| *x >= 0).map(|x| V::Enum(*t, x as u32)));
+            out
+        }
+        V::Vector(d) => sh_seq(d, |x| sh_f32(*x)).into_iter().map(V::Vector).collect(),
+        V::Json(j) => jshrinks(j).into_iter().map(V::Json).collect(),
+        V::Array(xs) => {
+            let mut out = xs.clone();
+            out.extend(sh_seq(xs, shrinks).into_iter().map(V::Array));
+            out
+        }
+        V::Tuple(xs) => {
+            let mut out = xs.clone();
+            out.extend(sh_seq(xs, shrinks).into_iter().map(V::Tuple));
+            out
+        }
+        V::Composite(t, xs) => {
+            let mut out = xs.clone();
+            if *t != 0 {
+                out.push(V::Composite(0, xs.clone()));
+            }
+            out.extend(sh_seq(xs, shrinks).into_iter().map(|c| V::Composite(*t, c)));
+            out
+        }
+        V::Domain(t, x) => {
+            let mut out = vec![(**x).clone()];
+            if *t != 0 {
+                out.push(V::Domain(0, x.clone()));
+            }
+            out.extend(shrinks(x).into_iter().map(|c| V::Domain(*t, Box::new(c))));
+            out
+        }
+        V::Range { lo, hi, li, ui } => {
+            let mut out = vec![];
+            if let Some(x) = lo {
+                out.push((**x).clone());
+                out.push(V::Range { lo: None, hi: hi.clone(), li: false, ui: *ui });
+                out.extend(shrinks(x).into_iter().map(|c| V::Range { lo: Some(Box::new(c)), hi: hi.clone(), li: *li, ui: *ui }));
+            }
+            if let Some(x) = hi {
+                out.push((**x).clone());
+                out.push(V::Range { lo: lo.clone(), hi: None, li: *li, ui: false });
+                out.extend(shrinks(x).into_iter().map(|c| V::Range { lo: lo.clone(), hi: Some(Box::new(c)), li: *li, ui: *ui }));
+            }
+            if *li {
+                out.push(V::Range { lo: lo.clone(), hi: hi.clone(), li: false, ui: *ui });
+            }
+            if *ui {
+                out.push(V::Range { lo: lo.clone(), hi: hi.clone(), li: *li, ui: false });
+            }
+            out
+        }
+    }
+}
+
+/// simplifications applied to both sides at once (needed when the failure depends on the two
+/// sides staying equal somewhere, e.g. two different values sharing one key)
+fn jpaired(a: &J, b: &J) -> Vec<(J, J)> {
+    if jident(a, b) {
+        return jshrinks(a).into_iter().zip(jshrinks(b)).collect();
+    }
+    let mut out = vec![];
+    match (a, b) {
+        (J::Arr(x), J::Arr(y)) => {
+            let n = x.len().min(y.len());
+            for i in 0..n {
+                out.push((x[i].clone(), y[i].clone()));
+            }
+            for i in 0..n {
+                let (mut p, mut q) = (x.clone(), y.clone());
+                p.remove(i);
+                q.remove(i);
+                out.push((J::Arr(p), J::Arr(q)));
+            }
+            for i in 0..n {
+                for (p, q) in jpaired(&x[i], &y[i]) {
+                    let (mut xx, mut yy) = (x.clone(), y.clone());
+                    xx[i] = p;
+                    yy[i] = q;
+                    out.push((J::Arr(xx), J::Arr(yy)));
+                }
+            }
+        }
+        (J::Obj(x), J::Obj(y)) => {
+            let n = x.len().min(y.len());
+            for i in 0..n {
+                out.push((x[i].1.clone(), y[i].1.clone()));
+            }
+            for i in 0..n {
+                let (mut p, mut q) = (x.clone(), y.clone());
+                p.remove(i);
+                q.remove(i);
+                out.push((J::Obj(p), J::Obj(q)));
+            }
+            for i in 0..n {
+                for (p, q) in jpaired(&x[i].1, &y[i].1) {
+                    let (mut xx, mut yy) = (x.clone(), y.clone());
+                    xx[i].1 = p;
+                    yy[i].1 = q;
+                    out.push((J::Obj(xx), J::Obj(yy)));
+                }
+            }
+        }
+        _ => {}
+    }
+    out
+}
+fn paired_seq(x: &[V], y: &[V], whole: bool) -> (Vec<(V, V)>, Vec<(Vec<V>, Vec<V>)>) {
+    let n = x.len().min(y.len());
+    let mut wholes = vec![];
+    let mut seqs = vec![];
+    for i in 0..n {
+        if whole {
+            wholes.push((x[i].clone(), y[i].clone()));
+        }
+        let (mut p, mut q) = (x.to_vec(), y.to_vec());
+        p.remove(i);
+        q.remove(i);
+        seqs.push((p, q));
+    }
+    for i in 0..n {
+        for (p, q) in paired_shrinks(&x[i], &y[i]) {
+            let (mut xx, mut yy) = (x.to_vec(), y.to_vec());
+            xx[i] = p;
+            yy[i] = q;
+            seqs.push((xx, yy));
+        }
+    }
+    (wholes, seqs)
+}
+fn paired_shrinks(a: &V, b: &V) -> Vec<(V, V)> {
+    if ident(a, b) {
+        return shrinks(a).into_iter().zip(shrinks(b)).collect();
+    }
+    let mut out = vec![];
+    match (a, b) {
+        (V::Array(x), V::Array(y)) => {
+            let (w, s) = paired_seq(x, y, true);
+            out.extend(w);
+            out.extend(s.into_iter().map(|(p, q)| (V::Array(p), V::Array(q))));
+        }
+        (V::Tuple(x), V::Tuple(y)) => {
+            let (w, s) = paired_seq(x, y, true);
+            out.extend(w);
+            out.extend(s.into_iter().map(|(p, q)| (V::Tuple(p), V::Tuple(q))));
+        }
+        (V::Composite(t, x), V::Composite(u, y)) => {
+            let (w, s) = paired_seq(x, y, true);
+            out.extend(w);
+            if t == u && *t != 0 {
+                out.push((V::Composite(0, x.clone()), V::Composite(0, y.clone())));
+            }
+            out.extend(s.into_iter().map(|(p, q)| (V::Composite(*t, p), V::Composite(*u, q))));
+        }
+        (V::Domain(t, x), V::Domain(u, y)) => {
+            out.push(((**x).clone(), (**y).clone()));
+            if t == u && *t != 0 {
+                out.push((V::Domain(0, x.clone()), V::Domain(0, y.clone())));
+            }
+            out.extend(paired_shrinks(x, y).into_iter().map(|(p, q)| (V::Domain(*t, Box::new(p)), V::Domain(*u, Box::new(q)))));
+        }
+        (V::Range { lo, hi, li, ui }, V::Range { lo: lo2, hi: hi2, li: li2, ui: ui2 }) => {
+            if let (Some(p), Some(q)) = (lo, lo2) {
+                out.push(((**p).clone(), (**q).clone()));
+                out.push((V::Range { lo: None, hi: hi.clone(), li: false, ui: *ui }, V::Range { lo: None, hi: hi2.clone(), li: false, ui: *ui2 }));
+                for (x, y) in paired_shrinks(p, q) {
+                    out.push((V::Range { lo: Some(Box::new(x)), hi: hi.clone(), li: *li, ui: *ui }, V::Range { lo: Some(Box::new(y)), hi: hi2.clone(), li: *li2, ui: *ui2 }));
+                }
+            }
+            if let (Some(p), Some(q)) = (hi, hi2) {
+                out.push(((**p).clone(), (**q).clone()));
+                out.push((V::Range { lo: lo.clone(), hi: None, li: *li, ui: false }, V::Range { lo: lo2.clone(), hi: None, li: *li2, ui: false }));
+                for (x, y) in paired_shrinks(p, q) {
+                    out.push((V::Range { lo: lo.clone(), hi: Some(Box::new(x)), li: *li, ui: *ui }, V::Range { lo: lo2.clone(), hi: Some(Box::new(y)), li: *li2, ui: *ui2 }));
+                }
+            }
+        }
+        (V::Vector(x), V::Vector(y)) => {
+            let n = x.len().min(y.len());
+            for i in 0..n {
+                let (mut p, mut q) = (x.clone(), y.clone());
+                p.remove(i);
+                q.remove(i);
+                out.push((V::Vector(p), V::Vector(q)));
+            }
+            for i in 0..n {
+                if x[i].to_bits() == y[i].to_bits() {
+                    for s in sh_f32(x[i]) {
+                        let (mut p, mut q) = (x.clone(), y.clone());
+                        p[i] = s;
+                        q[i] = s;
+                        out.push((V::Vector(p), V::Vector(q)));
+                    }
+                }
+            }
+        }
+        (V::Json(x), V::Json(y)) => out.extend(jpaired(x, y).into_iter().map(|(p, q)| (V::Json(p), V::Json(q)))),
+        _ => {}
+    }
+    out
+}
+
+fn key_weight(k: &[V]) -> u64 {
+    3 * k.len() as u64 + k.iter().map(weight).sum::<u64>()
+}
+
+/// one-step simplifications of a key: drop a column, simplify a column
+fn key_shrinks(k: &[V]) -> Vec<Vec<V>> {
+    sh_seq(k, shrinks).into_iter().filter(|c| !c.is_empty()).collect()
+}
+
+/// greedy shrink of a single key while `pred` keeps failing with the same sub-assertion
+fn shrink_key(k: &[V], assertion: &str, bump: &Bump) -> (Vec<V>, Fail) {
+    let mut cur = k.to_vec();
+    let mut cur_fail = check_key(&cur, bump, true).fail.expect("shrink_key called on a failing key");
+    let mut steps = 0;
+    'outer: loop {
+        let w = key_weight(&cur);
+        for c in key_shrinks(&cur) {
+            steps += 1;
+            if steps > 4000 {
+                break 'outer;
+            }
+            if key_weight(&c) >= w {
+                continue;
+            }
+            if let Some(f) = check_key(&c, bump, true).fail {
+                if f.assertion == assertion {
+                    cur = c;
+                    cur_fail = f;
+                    continue 'outer;
+                }
+            }
+        }
+        break;
+    }
+    (cur, cur_fail)
+}
+
+fn shrink_pair(a: &[V], b: &[V], assertion: &str, bump: &Bump) -> (Vec<V>, Vec<V>, Fail) {
+    let mut ca = a.to_vec();
+    let mut cb = b.to_vec();
+    let mut cf = pair_fails(&ca, &cb, bump).expect("shrink_pair called on a failing pair");
+    let mut steps = 0;
+    let same = |f: &Fail| f.assertion == assertion || (assertion == "composite_order" && f.assertion == "order_iso");
+    'outer: loop {
+        let w = key_weight(&ca) + key_weight(&cb);
+        let mut cands: Vec<(Vec<V>, Vec<V>)> = vec![];
+        // drop the same column on both sides
+        for i in 0..ca.len().min(cb.len()) {
+            if ca.len() > 1 && cb.len() > 1 {
+                let (mut x, mut y) = (ca.clone(), cb.clone());
+                x.remove(i);
+                y.remove(i);
+                cands.push((x, y));
+            }
+        }
+        for i in 0..ca.len().min(cb.len()) {
+            for (p, q) in paired_shrinks(&ca[i], &cb[i]) {
+                let (mut x, mut y) = (ca.clone(), cb.clone());
+                x[i] = p;
+                y[i] = q;
+                cands.push((x, y));
+            }
+        }
+        for x in key_shrinks(&ca) {
+            cands.push((x, cb.clone()));
+        }
+        for y in key_shrinks(&cb) {
+            cands.push((ca.clone(), y));
+        }
+        for (x, y) in cands {
+            steps += 1;
+            if steps > 6000 {
+                break 'outer;
+            }
+            if key_weight(&x) + key_weight(&y) >= w {
+                continue;
+            }
+            if let Some(f) = pair_fails(&x, &y, bump) {
+                if same(&f) {
+                    ca = x;
+                    cb = y;
+                    cf = f;
+                    continue 'outer;
+                }
+            }
+        }
+        break;
+    }
+    (ca, cb, cf)
+}
+
+// ---------------------------------------------------------------------------------------------
+// generation
+// ---------------------------------------------------------------------------------------------
+
+const CHARS: [char; 14] = ['\0', '\u{1}', ' ', 'a', 'b', 'z', '\u{7f}', '\u{80}', '\u{ff}', '\u{7ff}', '\u{800}', '\u{ffff}', '\u{10000}', '\u{10ffff}'];
+const BYTES: [u8; 14] = [0x00, 0x00, 0x01, 0x02, 0x14, 0x20, b'a', b'b', 0x7f, 0x80, 0xfe, 0xff, 0xff, 0x10];
+
+struct Gen {
+    rng: Rng,
+    /// hostile features, switched on per case so that most cases stay free of any given one
+    f32_signed_zero_nan: bool,
+    json_neg_zero: bool,
+    obj_hostile_key: bool,
+}
+
+impl Gen {
+    fn new(rng: Rng) -> Gen {
+        Gen { rng, f32_signed_zero_nan: false, json_neg_zero: false, obj_hostile_key: false }
+    }
+    fn new_case(&mut self) {
+        let r = self.rng.next();
+        self.f32_signed_zero_nan = r & 3 == 0;
+        self.json_neg_zero = (r >> 2) & 3 == 0;
+        self.obj_hostile_key = (r >> 4) & 3 == 0;
+    }
+    fn i64(&mut self) -> i64 {
+        match self.rng.below(12) {
+            0 => *self.rng.pick(&[0i64, 1, -1, i64::MIN, i64::MAX, i64::MIN + 1, i64::MAX - 1, 255, 256, -255, -256, 65535, 65536, 1 << 31, -(1 << 31), 1 << 32, (1 << 53) + 1, -(1 << 53) - 1]),
+            1 | 2 => {
+                let k = self.rng.below(63);
+                let base = 1i64 << k;
+                let d = self.rng.range(-2, 2);
+                let x = base.wrapping_add(d);
+                if self.rng.chance(1, 2) { x.wrapping_neg() } else { x }
+            }
+            3 | 4 | 5 => self.rng.range(-300, 300),
+            6 => (self.rng.next() >> self.rng.below(64)) as i64,
+            7 => ((self.rng.next() >> self.rng.below(64)) as i64).wrapping_neg(),
+            _ => self.rng.next() as i64,
+        }
+    }
+    fn i32(&mut self) -> i32 {
+        match self.rng.below(6) {
+            0 => *self.rng.pick(&[0i32, 1, -1, i32::MIN, i32::MAX, i32::MIN + 1, i32::MAX - 1, 255, 256, -256]),
+            1 | 2 => self.rng.range(-400, 400) as i32,
+            _ => self.rng.next() as i32,
+        }
+    }
+    fn i16(&mut self) -> i16 {
+        match self.rng.below(4) {
+            0 => *self.rng.pick(&[0i16, 1, -1, i16::MIN, i16::MAX, 255, 256, -256]),
+            1 => self.rng.range(-840, 840) as i16,
+            _ => self.rng.next() as i16,
+        }
+    }
+    fn u32(&mut self) -> u32 {
+        match self.rng.below(4) {
+            0 => *self.rng.pick(&[0u32, 1, 2, 255, 256, 0x7fff_ffff, 0x8000_0000, u32::MAX]),
+            1 | 2 => self.rng.below(6) as u32,
+            _ => self.rng.next() as u32,
+        }
+    }
+    /// any f64: +-0, NaN (both signs, several payloads), +-inf, subnormals, integers, random bits
+    fn f64(&mut self) -> f64 {
+        match self.rng.below(14) {
+            0 => *self.rng.pick(&[0.0f64, -0.0, 1.0, -1.0, f64::INFINITY, f64::NEG_INFINITY, f64::MIN_POSITIVE, -f64::MIN_POSITIVE, f64::MAX, f64::MIN, f64::EPSILON, 0.5, -0.5, 9.223372036854775807e18, -9.223372036854775808e18]),
+            1 => f64::from_bits(*self.rng.pick(&[0x7ff8_0000_0000_0000u64, 0xfff8_0000_0000_0000, 0x7ff0_0000_0000_0001, 0xfff0_0000_0000_0001, 0x7fff_ffff_ffff_ffff, 0xffff_ffff_ffff_ffff])),
+            2 => {
+                // subnormals
+                let b = 1 + (self.rng.next() >> (12 + self.rng.below(52)));
+                f64::from_bits(b | ((self.rng.below(2)) << 63))
+            }
+            3 | 4 => self.i64() as f64,
+            5 => {
+                let f = self.i64() as f64;
+                let b = f.to_bits();
+                f64::from_bits(if self.rng.chance(1, 2) { b.wrapping_add(1) } else { b.wrapping_sub(1) })
+            }
+            6 | 7 => (self.rng.range(-3000, 3000) as f64) / 8.0,
+            8 => (self.rng.f64() - 0.5) * 2e-300,
+            9 => (self.rng.f64() - 0.5) * 2e300,
+            _ => f64::from_bits(self.rng.next()),
+        }
+    }
+    fn finite_f64(&mut self, neg_zero: bool) -> f64 {
+        loop {
+            let f = self.f64();
+            if f.is_finite() && (neg_zero || f.to_bits() != 0x8000_0000_0000_0000) {
+                return f;
+            }
+        }
+    }
+    fn f32(&mut self) -> f32 {
+        let hostile = self.f32_signed_zero_nan;
+        loop {
+            let f = match self.rng.below(10) {
+                0 => *self.rng.pick(&[0.0f32, 1.0, -1.0, f32::INFINITY, f32::NEG_INFINITY, f32::MIN_POSITIVE, -f32::MIN_POSITIVE, f32::MAX, f32::MIN, 0.5]),
+                1 => f32::from_bits(*self.rng.pick(&[0x8000_0000u32, 0x7fc0_0000, 0xffc0_0000, 0x7f80_0001, 0xff80_0001, 0xffff_ffff])),
+                2 => f32::from_bits((1 + (self.rng.next() as u32 >> (9 + self.rng.below(23)))) | ((self.rng.below(2) as u32) << 31)),
+                3 | 4 | 5 => (self.rng.range(-64, 64) as f32) / 4.0,
+                _ => f32::from_bits(self.rng.next() as u32),
+            };
+            let is_hostile = f.is_nan() || f.to_bits() == 0x8000_0000;
+            if hostile || !is_hostile {
+                return f;
+            }
+        }
+    }
+    fn text(&mut self) -> String {
+        let n = match self.rng.below(10) {
+            0 => 0,
+            1..=6 => self.rng.usize(1, 4),
+            7 | 8 => self.rng.usize(4, 10),
+            _ => self.rng.usize(10, 40),
+        };
+        let ascii = self.rng.chance(1, 4);
+        (0..n)
+            .map(|_| if ascii { (b'a' + self.rng.below(4) as u8) as char } else { *self.rng.pick(&CHARS) })
+            .collect()
+    }
+    fn blob(&mut self) -> Vec<u8> {
+        let n = match self.rng.below(10) {
+            0 => 0,
+            1..=6 => self.rng.usize(1, 4),
+            7 | 8 => self.rng.usize(4, 12),
+            _ => self.rng.usize(12, 48),
+        };
+        if self.rng.chance(1, 4) {
+            self.rng.bytes(n)
+        } else {
+            (0..n).map(|_| *self.rng.pick(&BYTES)).collect()
+        }
+    }
+    fn arr<const N: usize>(&mut self) -> [u8; N] {
+        let mut a = [0u8; N];
+        match self.rng.below(5) {
+            0 => {}
+            1 => a = [0xFF; N],
+            2 => {
+                let i = self.rng.below(N as u64) as usize;
+                a[i] = *self.rng.pick(&BYTES);
+            }
+            _ => {
+                let b = self.rng.bytes(N);
+                a.copy_from_slice(&b);
+            }
+        }
+        a
+    }
+    fn key_str(&mut self, first: bool) -> String {
+        if first && self.obj_hostile_key && self.rng.chance(1, 3) {
+            return (*self.rng.pick(&["", "\0", "\0a", "\u{1}"])).to_string();
+        }
+        let n = self.rng.usize(1, 3);
+        (0..n).map(|i| if i == 0 { *self.rng.pick(&['a', 'b', 'k', '\u{1}', '\u{ff}', 'z']) } else { *self.rng.pick(&CHARS) }).collect()
+    }
+    fn json(&mut self, depth: u32) -> J {
+        let top = if depth == 0 { 5 } else { 8 };
+        match self.rng.below(top) {
+            0 => J::Null,
+            1 => J::Bool(self.rng.chance(1, 2)),
+            2 | 3 => {
+                let nz = self.json_neg_zero;
+                J::Num(self.finite_f64(nz))
+            }
+            4 => J::Str(self.text()),
+            5 | 6 => {
+                let n = self.rng.usize(0, 3);
+                J::Arr((0..n).map(|_| self.json(depth - 1)).collect())
+            }
+            _ => {
+                let n = self.rng.usize(0, 3);
+                let mut es: Vec<(String, J)> = vec![];
+                for i in 0..n {
+                    let k = self.key_str(i == 0);
+                    if es.iter().any(|e| e.0 == k) {
+                        continue;
+                    }
+                    let v = self.json(depth - 1);
+                    es.push((k, v));
+                }
+                J::Obj(es)
+            }
+        }
+    }
+    fn scalar_kind(&mut self) -> u64 {
+        // weights: int, float, text, blob dominate
+        const W: [(u64, u64); 15] = [(2, 18), (3, 18), (4, 14), (5, 10), (0, 2), (1, 2), (6, 4), (7, 4), (8, 5), (9, 4), (10, 4), (11, 4), (12, 3), (13, 2), (14, 3)];
+        let total: u64 = W.iter().map(|w| w.1).sum();
+        let mut r = self.rng.below(total);
+        for (k, w) in W {
+            if r < w {
+                return k;
+            }
+            r -= w;
+        }
+        2
+    }
+    fn any_kind(&mut self, depth: u32) -> u64 {
+        if depth == 0 || self.rng.chance(3, 4) {
+            self.scalar_kind()
+        } else {
+            // vector, json, array, tuple, composite, domain, range
+            *self.rng.pick(&[15u64, 15, 16, 16, 16, 17, 17, 18, 19, 20, 21])
+        }
+    }
+    fn elems(&mut self, depth: u32) -> Vec<V> {
+        let n = self.rng.usize(0, 3);
+        if self.rng.chance(2, 3) {
+            let k = self.any_kind(depth);
+            (0..n).map(|_| self.of_kind(k, depth)).collect()
+        } else {
+            (0..n).map(|_| self.value(depth)).collect()
+        }
+    }
+    fn of_kind(&mut self, kind: u64, depth: u32) -> V {
+        match kind {
+            0 => V::Null,
+            1 => V::Bool(self.rng.chance(1, 2)),
+            2 => V::Int(self.i64()),
+            3 => V::Float(self.f64()),
+            4 => V::Text(self.text()),
+            5 => V::Blob(self.blob()),
+            6 => V::Date(self.i32()),
+            7 => V::Time(self.i64()),
+            8 => V::Timestamp(self.i64()),
+            9 => V::TimestampTz(self.i64(), self.i16()),
+            10 => V::Interval(self.i32(), self.i32(), self.i64()),
+            11 => V::Uuid(self.arr::<16>()),
+            12 => {
+                if self.rng.chance(1, 2) {
+                    V::Inet(false, self.arr::<4>().to_vec(), self.rng.below(40) as u8)
+                } else {
+                    V::Inet(true, self.arr::<16>().to_vec(), self.rng.next() as u8)
+                }
+            }
+            13 => V::Mac(self.arr::<6>()),
+            14 => V::Enum(*self.rng.pick(&[0u32, 1, 7, u32::MAX]), self.u32()),
+            15 => {
+                let n = self.rng.usize(0, 5);
+                V::Vector((0..n).map(|_| self.f32()).collect())
+            }
+            16 => V::Json(self.json(depth.min(2))),
+            _ if depth == 0 => {
+                let k = self.scalar_kind();
+                self.of_kind(k, 0)
+            }
+            17 => V::Array(self.elems(depth - 1)),
+            18 => V::Tuple(self.elems(depth - 1)),
+            19 => V::Composite(*self.rng.pick(&[0u32, 1, 256, u32::MAX]), self.elems(depth - 1)),
+            20 => V::Domain(*self.rng.pick(&[0u32, 1, 256, u32::MAX]), Box::new(self.value(depth - 1))),
+            _ => {
+                let k = self.scalar_kind();
+                let lo = if self.rng.chance(3, 4) { Some(Box::new(self.of_kind(k, 0))) } else { None };
+                let hi = if self.rng.chance(3, 4) { Some(Box::new(self.of_kind(k, 0))) } else { None };
+                V::Range { lo, hi, li: self.rng.chance(1, 2), ui: self.rng.chance(1, 2) }
+            }
+        }
+    }
+    fn value(&mut self, depth: u32) -> V {
+        let k = self.any_kind(depth);
+        self.of_kind(k, depth)
+    }
+
+    fn near_i64(&mut self, n: i64) -> i64 {
+        match self.rng.below(6) {
+            0 => n.wrapping_add(1),
+            1 => n.wrapping_sub(1),
+            2 => n ^ (1i64 << self.rng.below(64)),
+            3 => n.wrapping_neg(),
+            4 => n.wrapping_add(self.rng.range(-300, 300)),
+            _ => self.i64(),
+        }
+    }
+    fn near_f64(&mut self, f: f64) -> f64 {
+        let b = f.to_bits();
+        match self.rng.below(7) {
+            0 => f64::from_bits(b.wrapping_add(1)),
+            1 => f64::from_bits(b.wrapping_sub(1)),
+            2 => -f,
+            3 => f64::from_bits(b ^ (1u64 << self.rng.below(64))),
+            4 => f + 1.0,
+            5 => f * 0.5,
+            _ => self.f64(),
+        }
+    }
+    fn near_f32(&mut self, f: f32) -> f32 {
+        let b = f.to_bits();
+        loop {
+            let x = match self.rng.below(5) {
+                0 => f32::from_bits(b.wrapping_add(1)),
+                1 => f32::from_bits(b.wrapping_sub(1)),
+                2 => -f,
+                3 => f32::from_bits(b ^ (1u32 << self.rng.below(32))),
+                _ => self.f32(),
+            };
+            let is_hostile = x.is_nan() || x.to_bits() == 0x8000_0000;
+            if self.f32_signed_zero_nan || !is_hostile {
+                return x;
+            }
+        }
+    }
+    fn near_str(&mut self, s: &str) -> String {
+        let mut cs: Vec<char> = s.chars().collect();
+        match self.rng.below(6) {
+            0 => cs.push(*self.rng.pick(&CHARS)),
+            1 => {
+                cs.pop();
+            }
+            2 if !cs.is_empty() => {
+                let i = self.rng.below(cs.len() as u64) as usize;
+                cs[i] = *self.rng.pick(&CHARS);
+            }
+            3 if !cs.is_empty() => {
+                // neighbouring code point of the last char
+                let i = cs.len() - 1;
+                let c = cs[i] as u32;
+                let d = if self.rng.chance(1, 2) { c.wrapping_add(1) } else { c.wrapping_sub(1) };
+                if let Some(ch) = char::from_u32(d) {
+                    cs[i] = ch;
+                }
+            }
+            4 => {
+                let i = self.rng.below(cs.len() as u64 + 1) as usize;
+                cs.insert(i, *self.rng.pick(&['\0', '\u{1}', 'a']));
+            }
+            _ => cs.push('\0'),
+        }
+        cs.into_iter().collect()
+    }
+    fn near_bytes(&mut self, b: &[u8]) -> Vec<u8> {
+        let mut c = b.to_vec();
+        match self.rng.below(7) {
+            0 => c.push(*self.rng.pick(&BYTES)),
+            1 => {
+                c.pop();
+            }
+            2 if !c.is_empty() => {
+                let i = self.rng.below(c.len() as u64) as usize;
+                c[i] = *self.rng.pick(&BYTES);
+            }
+            3 if !c.is_empty() => {
+                let i = c.len() - 1;
+                c[i] = if self.rng.chance(1, 2) { c[i].wrapping_add(1) } else { c[i].wrapping_sub(1) };
+            }
+            4 => {
+                let i = self.rng.below(c.len() as u64 + 1) as usize;
+                c.insert(i, *self.rng.pick(&[0u8, 0xFF, 1]));
+            }
+            5 => c.push(0),
+            _ => c.push(0xFF),
+        }
+        c
+    }
+    fn near_arr<const N: usize>(&mut self, a: &[u8; N]) -> [u8; N] {
+        let mut c = *a;
+        let i = self.rng.below(N as u64) as usize;
+        c[i] = match self.rng.below(3) {
+            0 => c[i].wrapping_add(1),
+            1 => c[i].wrapping_sub(1),
+            _ => *self.rng.pick(&BYTES),
+        };
+        c
+    }
+    fn near_seq(&mut self, xs: &[V], depth: u32) -> Vec<V> {
+        let mut c = xs.to_vec();
+        match self.rng.below(4) {
+            0 => c.push(if let Some(l) = xs.last() { self.near(l, depth) } else { self.value(depth) }),
+            1 => {
+                c.pop();
+            }
+            _ if !c.is_empty() => {
+                let i = self.rng.below(c.len() as u64) as usize;
+                c[i] = self.near(&xs[i], depth);
+            }
+            _ => c.push(self.value(depth)),
+        }
+        c
+    }
+    fn near_json(&mut self, j: &J) -> J {
+        match j {
+            J::Null | J::Bool(_) => self.json(1),
+            J::Num(n) => {
+                let nz = self.json_neg_zero;
+                for _ in 0..8 {
+                    let x = self.near_f64(*n);
+                    if x.is_finite() && (nz || x.to_bits() != 0x8000_0000_0000_0000) {
+                        return J::Num(x);
+                    }
+                }
+                J::Num(self.finite_f64(nz))
+            }
+            J::Str(s) => J::Str(self.near_str(s)),
+            J::Arr(xs) => {
+                let mut c = xs.clone();
+                match self.rng.below(4) {
+                    0 => c.push(self.json(1)),
+                    1 => {
+                        c.pop();
+                    }
+                    _ if !c.is_empty() => {
+                        let i = self.rng.below(c.len() as u64) as usize;
+                        c[i] = self.near_json(&xs[i]);
+                    }
+                    _ => c.push(self.json(0)),
+                }
+                J::Arr(c)
+            }
+            J::Obj(es) => {
+                let mut c = es.clone();
+                match self.rng.below(5) {
+                    0 => {
+                        let k = self.key_str(c.is_empty());
+                        if !c.iter().any(|e| e.0 == k) {
+                            let v = self.json(1);
+                            c.push((k, v));
+                        }
+                    }
+                    1 => {
+                        c.pop();
+                    }
+                    2 if !c.is_empty() => {
+                        let i = self.rng.below(c.len() as u64) as usize;
+                        let k = self.near_str(&es[i].0);
+                        if !c.iter().any(|e| e.0 == k) {
+                            c[i].0 = k;
+                        }
+                    }
+                    3 if c.len() > 1 => c.swap(0, 1),
+                    _ if !c.is_empty() => {
+                        let i = self.rng.below(c.len() as u64) as usize;
+                        c[i].1 = self.near_json(&es[i].1);
+                    }
+                    _ => {}
+                }
+                J::Obj(c)
+            }
+        }
+    }
+    /// a value close to `v` in the documented order (or just across a type boundary)
+    fn near(&mut self, v: &V, depth: u32) -> V {
+        if self.rng.chance(1, 12) {
+            return self.value(depth);
+        }
+        let d1 = depth.saturating_sub(1);
+        match v {
+            V::Null => self.value(0),
+            V::Bool(b) => V::Bool(!b),
+            V::Int(n) => {
+                if self.rng.chance(1, 8) { V::Float(*n as f64) } else { V::Int(self.near_i64(*n)) }
+            }
+            V::Float(f) => {
+                if self.rng.chance(1, 8) && f.is_finite() && f.abs() < 9e18 {
+                    V::Int(*f as i64)
+                } else {
+                    V::Float(self.near_f64(*f))
+                }
+            }
+            V::Text(s) => {
+                if self.rng.chance(1, 16) { V::Blob(s.as_bytes().to_vec()) } else { V::Text(self.near_str(s)) }
+            }
+            V::Blob(b) => V::Blob(self.near_bytes(b)),
+            V::Date(d) => V::Date(self.near_i64(*d as i64) as i32),
+            V::Time(t) => V::Time(self.near_i64(*t)),
+            V::Timestamp(t) => {
+                if self.rng.chance(1, 16) { V::Time(*t) } else { V::Timestamp(self.near_i64(*t)) }
+            }
+            V::TimestampTz(m, tz) => {
+                if self.rng.chance(1, 2) { V::TimestampTz(self.near_i64(*m), *tz) } else { V::TimestampTz(*m, self.near_i64(*tz as i64) as i16) }
+            }
+            V::Interval(a, b, c) => match self.rng.below(3) {
+                0 => V::Interval(self.near_i64(*a as i64) as i32, *b, *c),
+                1 => V::Interval(*a, self.near_i64(*b as i64) as i32, *c),
+                _ => V::Interval(*a, *b, self.near_i64(*c)),
+            },
+            V::Uuid(u) => V::Uuid(self.near_arr(u)),
+            V::Mac(m) => V::Mac(self.near_arr(m)),
+            V::Inet(v6, addr, pl) => {
+                if self.rng.chance(1, 2) {
+                    V::Inet(*v6, addr.clone(), pl.wrapping_add(1))
+                } else {
+                    let mut c = addr.clone();
+                    let i = self.rng.below(c.len() as u64) as usize;
+                    c[i] = c[i].wrapping_add(1);
+                    V::Inet(*v6, c, *pl)
+                }
+            }
+            V::Enum(t, o) => {
+                if self.rng.chance(1, 4) { V::Enum(t.wrapping_add(1), *o) } else { V::Enum(*t, self.near_i64(*o as i64) as u32) }
+            }
+            V::Vector(d) => {
+                let mut c = d.clone();
+                match self.rng.below(4) {
+                    0 => c.push(self.f32()),
+                    1 => {
+                        c.pop();
+                    }
+                    _ if !c.is_empty() => {
+                        let i = self.rng.below(c.len() as u64) as usize;
+                        c[i] = self.near_f32(d[i]);
+                    }
+                    _ => c.push(self.f32()),
+                }
+                V::Vector(c)
+            }
+            V::Json(j) => V::Json(self.near_json(j)),
+            V::Array(xs) => {
+                if self.rng.chance(1, 16) { V::Tuple(xs.clone()) } else { V::Array(self.near_seq(xs, d1)) }
+            }
+            V::Tuple(xs) => V::Tuple(self.near_seq(xs, d1)),
+            V::Composite(t, xs) => {
+                if self.rng.chance(1, 6) { V::Composite(t.wrapping_add(1), xs.clone()) } else { V::Composite(*t, self.near_seq(xs, d1)) }
+            }
+            V::Domain(t, x) => {
+                if self.rng.chance(1, 6) { V::Domain(t.wrapping_add(1), x.clone()) } else { V::Domain(*t, Box::new(self.near(x, d1))) }
+            }
+            V::Range { lo, hi, li, ui } => match self.rng.below(4) {
+                0 => V::Range { lo: lo.clone(), hi: hi.clone(), li: !li, ui: *ui },
+                1 => V::Range { lo: lo.clone(), hi: hi.clone(), li: *li, ui: !ui },
+                2 => V::Range { lo: lo.as_ref().map(|x| Box::new(self.near(x, 0))), hi: hi.clone(), li: *li, ui: *ui },
+                _ => V::Range { lo: lo.clone(), hi: hi.as_ref().map(|x| Box::new(self.near(x, 0))), li: *li, ui: *ui },
+            },
+        }
+    }
+
+    /// a pair of (composite) keys: mostly related (shared column prefix, then a near value, then
+    /// misleading later columns), sometimes independent
+    fn pair(&mut self) -> (Vec<V>, Vec<V>, bool) {
+        self.new_case();
+        let ncols = match self.rng.below(8) {
+            0..=3 => 1,
+            4 | 5 => 2,
+            6 => 3,
+            _ => 4,
+        };
+        let a: Vec<V> = (0..ncols).map(|_| self.value(2)).collect();
+        if self.rng.chance(1, 4) {
+            let nb = if self.rng.chance(3, 4) { ncols } else { self.rng.usize(1, 4) };
+            let b: Vec<V> = (0..nb).map(|i| if i < a.len() && self.rng.chance(1, 2) { let k = kind_id(&a[i]); self.of_kind(k, 2) } else { self.value(2) }).collect();
+            return (a, b, false);
+        }
+        let mut b = a.clone();
+        let c = self.rng.below(ncols as u64) as usize;
+        b[c] = self.near(&a[c], 2);
+        // later columns: fresh values so that a wrong decision at column c is not masked
+        for i in c + 1..ncols {
+            if self.rng.chance(2, 3) {
+                b[i] = self.value(1);
+            }
+        }
+        match self.rng.below(12) {
+            0 => b.truncate(c + 1),
+            1 => b.push(self.value(1)),
+            _ => {}
+        }
+        (a, b, true)
+    }
+}
+
+// ---------------------------------------------------------------------------------------------
+// boundary strata
+// ---------------------------------------------------------------------------------------------
+
+fn boundaries() -> Vec<V> {
+    let mut b = vec![V::Null, V::Bool(false), V::Bool(true)];
+    for n in [i64::MIN, i64::MIN + 1, -(1 << 53) - 1, -(1 << 32), -65536, -256, -255, -2, -1, 0, 1, 2, 127, 128, 255, 256, 65535, 1 << 32, (1 << 53) + 1, i64::MAX - 1, i64::MAX] {
+        b.push(V::Int(n));
+    }
+    for f in [
+        f64::NEG_INFINITY, f64::MIN, -1e300, -9.223372036854775808e18, -256.0, -2.0, -1.5, -1.0, -0.5, -f64::MIN_POSITIVE,
+        -f64::from_bits(0x000f_ffff_ffff_ffff), -f64::from_bits(1), -0.0, 0.0, f64::from_bits(1), f64::from_bits(0x000f_ffff_ffff_ffff),
+        f64::MIN_POSITIVE, 0.5, 1.0, 1.5, 2.0, 256.0, 9.223372036854775807e18, 1e300, f64::MAX, f64::INFINITY, f64::NAN,
+        f64::from_bits(0xfff8_0000_0000_0000), f64::from_bits(0x7ff0_0000_0000_0001), f64::from_bits(0xffff_ffff_ffff_ffff),
+    ] {
+        b.push(V::Float(f));
+    }
+    for s in ["", "\0", "\0\0", "\0\u{1}", "\u{1}", "a", "a\0", "a\0\0", "a\0b", "a\u{1}", "aa", "ab", "b", "\u{7f}", "\u{80}", "\u{ff}", "\u{7ff}", "\u{800}", "\u{ffff}", "\u{10000}", "\u{10ffff}", "\u{10ffff}\0", "\u{10ffff}\u{10ffff}"] {
+        b.push(V::Text(s.to_string()));
+    }
+    for s in [
+        &[][..], &[0], &[0, 0], &[0, 0xFF], &[0, 1], &[1], &[1, 0], &[0x20], &[b'a'], &[b'a', 0], &[b'a', 0, 0], &[b'a', 0, 0xFF], &[b'a', 0xFF], &[b'a', 0xFF, 0],
+        &[0xFE], &[0xFE, 0xFF], &[0xFF], &[0xFF, 0], &[0xFF, 0, 0], &[0xFF, 0, 0xFF], &[0xFF, 1], &[0xFF, 0xFE], &[0xFF, 0xFF], &[0xFF, 0xFF, 0], &[0xFF, 0xFF, 0xFF],
+    ] {
+        b.push(V::Blob(s.to_vec()));
+    }
+    for d in [i32::MIN, i32::MIN + 1, -1, 0, 1, 19000, i32::MAX - 1, i32::MAX] {
+        b.push(V::Date(d));
+    }
+    for t in [i64::MIN, i64::MIN + 1, -1, 0, 1, 86_399_999_999, 1_700_000_000_000_000, i64::MAX - 1, i64::MAX] {
+        b.push(V::Time(t));
+        b.push(V::Timestamp(t));
+        for tz in [i16::MIN, -1, 0, 1, 840, i16::MAX] {
+            if t == 0 || t == -1 || t == i64::MAX || tz == 0 {
+                b.push(V::TimestampTz(t, tz));
+            }
+        }
+    }
+    for m in [i32::MIN, -1, 0, 1, i32::MAX] {
+        for d in [i32::MIN, -1, 0, 1, i32::MAX] {
+            for us in [i64::MIN, -1, 0, 1, i64::MAX] {
+                if (m == 0) as u8 + (d == 0) as u8 + (us == 0) as u8 >= 1 {
+                    b.push(V::Interval(m, d, us));
+                }
+            }
+        }
+    }
+    let mut u = [0u8; 16];
+    b.push(V::Uuid(u));
+    u[15] = 1;
+    b.push(V::Uuid(u));
+    u[15] = 0xFF;
+    b.push(V::Uuid(u));
+    u = [0; 16];
+    u[0] = 1;
+    b.push(V::Uuid(u));
+    u[0] = 0x80;
+    b.push(V::Uuid(u));
+    b.push(V::Uuid([0xFF; 16]));
+    for (v6, pl) in [(false, 0u8), (false, 24), (false, 32), (true, 0), (true, 64), (true, 128), (true, 255)] {
+        let n = if v6 { 16 } else { 4 };
+        b.push(V::Inet(v6, vec![0; n], pl));
+        b.push(V::Inet(v6, vec![0xFF; n], pl));
+        let mut a = vec![0; n];
+        a[n - 1] = 1;
+        b.push(V::Inet(v6, a, pl));
+    }
+    for m in [[0u8; 6], [0, 0, 0, 0, 0, 1], [0, 0, 0, 0, 1, 0], [0x80, 0, 0, 0, 0, 0], [0xFF; 6]] {
+        b.push(V::Mac(m));
+    }
+    for t in [0u32, 1, u32::MAX] {
+        for o in [0u32, 1, 255, 256, 0x8000_0000, u32::MAX] {
+            b.push(V::Enum(t, o));
+        }
+    }
+    // vectors (f32 strata incl. signed zero / NaN / inf / subnormal)
+    let fs = [f32::NEG_INFINITY, f32::MIN, -1.0, -f32::MIN_POSITIVE, -f32::from_bits(1), -0.0, 0.0, f32::from_bits(1), f32::MIN_POSITIVE, 1.0, f32::MAX, f32::INFINITY, f32::NAN, f32::from_bits(0xffc0_0000), f32::from_bits(0xffff_ffff)];
+    b.push(V::Vector(vec![]));
+    for x in fs {
+        b.push(V::Vector(vec![x]));
+        b.push(V::Vector(vec![1.0, x]));
+    }
+    b.push(V::Vector(vec![0.0, 0.0]));
+    b.push(V::Vector(vec![1.0, 2.0, 3.0]));
+    // JSON
+    let js = |s: &str| J::Str(s.to_string());
+    let mut jsons = vec![J::Null, J::Bool(false), J::Bool(true)];
+    for n in [f64::MIN, -1e300, -2.0, -1.0, -f64::MIN_POSITIVE, -f64::from_bits(1), -0.0, 0.0, f64::from_bits(1), f64::MIN_POSITIVE, 1.0, 2.0, 1e300, f64::MAX] {
+        jsons.push(J::Num(n));
+    }
+    for s in ["", "\0", "a", "a\0", "a\0b", "ab", "b", "\u{10ffff}"] {
+        jsons.push(js(s));
+    }
+    jsons.push(J::Arr(vec![]));
+    jsons.push(J::Arr(vec![J::Null]));
+    jsons.push(J::Arr(vec![J::Null, J::Null]));
+    jsons.push(J::Arr(vec![J::Num(1.0)]));
+    jsons.push(J::Arr(vec![J::Num(1.0), J::Num(-1.0)]));
+    jsons.push(J::Arr(vec![js("a")]));
+    jsons.push(J::Arr(vec![js("a"), js("")]));
+    jsons.push(J::Arr(vec![J::Arr(vec![])]));
+    jsons.push(J::Arr(vec![J::Arr(vec![]), J::Null]));
+    jsons.push(J::Arr(vec![J::Obj(vec![])]));
+    jsons.push(J::Obj(vec![]));
+    jsons.push(J::Obj(vec![("a".into(), J::Null)]));
+    jsons.push(J::Obj(vec![("a".into(), J::Num(1.0))]));
+    jsons.push(J::Obj(vec![("a".into(), J::Null), ("b".into(), J::Null)]));
+    jsons.push(J::Obj(vec![("a".into(), J::Null), ("".into(), J::Null)]));
+    jsons.push(J::Obj(vec![("a".into(), J::Null), ("\0".into(), J::Null)]));
+    jsons.push(J::Obj(vec![("\u{1}".into(), J::Null)]));
+    jsons.push(J::Obj(vec![("".into(), J::Null)]));
+    jsons.push(J::Obj(vec![("\0".into(), J::Null)]));
+    jsons.push(J::Obj(vec![("\0a".into(), J::Bool(true))]));
+    jsons.push(J::Obj(vec![("a".into(), J::Obj(vec![("b".into(), J::Arr(vec![]))]))]));
+    for j in jsons {
+        b.push(V::Json(j));
+    }
+    // arrays / tuples / composites / domains / ranges
+    let t = |s: &str| V::Text(s.to_string());
+    let seqs: Vec<Vec<V>> = vec![
+        vec![],
+        vec![V::Null],
+        vec![V::Null, V::Null],
+        vec![V::Int(0)],
+        vec![V::Int(0), V::Null],
+        vec![V::Int(0), V::Int(0)],
+        vec![V::Int(-1)],
+        vec![V::Int(1)],
+        vec![V::Int(1), V::Int(-1)],
+        vec![V::Float(0.0)],
+        vec![V::Float(f64::NAN)],
+        vec![t("")],
+        vec![t(""), t("")],
+        vec![t("a")],
+        vec![t("a"), t("")],
+        vec![t("a\0")],
+        vec![V::Blob(vec![0])],
+        vec![V::Blob(vec![1])],
+        vec![V::Blob(vec![0xFF])],
+        vec![V::Array(vec![])],
+        vec![V::Array(vec![]), V::Null],
+        vec![V::Array(vec![V::Null])],
+        vec![V::Vector(vec![1.0])],
+    ];
+    for s in &seqs {
+        b.push(V::Array(s.clone()));
+        b.push(V::Tuple(s.clone()));
+    }
+    for s in seqs.iter().take(9) {
+        b.push(V::Composite(0, s.clone()));
+        b.push(V::Composite(1, s.clone()));
+    }
+    for x in [V::Null, V::Int(0), V::Int(5), t(""), t("a"), V::Array(vec![])] {
+        b.push(V::Domain(0, Box::new(x.clone())));
+        b.push(V::Domain(u32::MAX, Box::new(x)));
+    }
+    for (lo, hi) in [(None, None), (Some(1), None), (None, Some(1)), (Some(1), Some(2)), (Some(1), Some(1)), (Some(0), Some(2)), (Some(-1), Some(0))] {
+        for (li, ui) in [(false, false), (true, false), (false, true), (true, true)] {
+            b.push(V::Range { lo: lo.map(|x| Box::new(V::Int(x))), hi: hi.map(|x| Box::new(V::Int(x))), li, ui });
+        }
+    }
+    b.push(V::Range { lo: Some(Box::new(t("a"))), hi: Some(Box::new(t("a\0"))), li: true, ui: false });
+    b.push(V::Range { lo: Some(Box::new(t(""))), hi: Some(Box::new(t("a"))), li: true, ui: false });
+    b
+}
+
+/// second-column values for the prefix-hazard stratum: first bytes 0x01, 0x02, 0x10.., 0x20, 0x21
+fn hazard_tails() -> Vec<V> {
+    vec![
+        V::Null,
+        V::Bool(false),
+        V::Float(f64::NEG_INFINITY),
+        V::Int(-1),
+        V::Int(0),
+        V::Int(1),
+        V::Float(f64::NAN),
+        V::Text(String::new()),
+        V::Text("\0".into()),
+        V::Text("a".into()),
+        V::Blob(vec![]),
+        V::Blob(vec![0]),
+        V::Blob(vec![0xFF]),
+        V::Vector(vec![]),
+    ]
+}
+
+// ---------------------------------------------------------------------------------------------
+// running cases, collecting statistics (per worker, merged at the end)
+// ---------------------------------------------------------------------------------------------
+
+#[derive(Default)]
+struct Stats {
+    evals: u64,
+    counters: BTreeMap<&'static str, u64>,
+    nontrivial: HashSet<u64>,
+    viols: BTreeMap<(String, String), (u64, Vec<serde_json::Value>)>,
+    samples: Vec<serde_json::Value>,
+}
+
+impl Stats {
+    fn count(&mut self, k: &'static str, n: u64) {
+        *self.counters.entry(k).or_insert(0) += n;
+    }
+    fn viol(&mut self, assertion: &str, sig: String, detail: serde_json::Value) {
+        let e = self.viols.entry((assertion.to_string(), sig)).or_insert((0, vec![]));
+        e.0 += 1;
+        if e.1.len() < 2 {
+            e.1.push(detail);
+        }
+    }
+    fn merge(&mut self, o: Stats) {
+        self.evals += o.evals;
+        for (k, n) in o.counters {
+            *self.counters.entry(k).or_insert(0) += n;
+        }
+        self.nontrivial.extend(o.nontrivial);
+        for (k, (n, d)) in o.viols {
+            let e = self.viols.entry(k).or_insert((0, vec![]));
+            e.0 += n;
+            for x in d {
+                if e.1.len() < 2 {
+                    e.1.push(x);
+                }
+            }
+        }
+        for s in o.samples {
+            if self.samples.len() < 6 {
+                self.samples.push(s);
+            }
+        }
+    }
+}
+
+fn dbg_key(k: &[V]) -> String {
+    let s = format!("{:?}", k);
+    if s.len() > 1500 { format!("{}..", &s.chars().take(1500).collect::<String>()) } else { s }
+}
+
+fn record_key_fail(st: &mut Stats, k: &[V], f: &Fail, bump: &Bump) {
+    let (min, mf) = shrink_key(k, f.assertion, bump);
+    let sig = format!("C26/{}/{}/{}", mf.assertion, mf.kind, key_shape(&min));
+    let enc = encode_plain(&min, bump).map(|e| hex(&e)).unwrap_or_default();
+    st.viol(
+        mf.assertion,
+        sig,
+        json!({"minimal_key": dbg_key(&min), "minimal_enc": enc, "minimal_observed": mf.info, "original_key": dbg_key(k), "original_observed": f.info}),
+    );
+}
+
+fn record_pair_fail(st: &mut Stats, a: &[V], b: &[V], f: &Fail, bump: &Bump) {
+    let (ma, mb, mf) = shrink_pair(a, b, f.assertion, bump);
+    let (mut sa, mut sb) = (key_shape(&ma), key_shape(&mb));
+    if sb < sa {
+        std::mem::swap(&mut sa, &mut sb);
+    }
+    let sig = format!("C26/{}/{}/{}|{}", mf.assertion, mf.kind, sa, sb);
+    st.viol(
+        mf.assertion,
+        sig,
+        json!({"minimal_a": dbg_key(&ma), "minimal_b": dbg_key(&mb), "minimal_observed": mf.info, "original_a": dbg_key(a), "original_b": dbg_key(b), "original_observed": f.info}),
+    );
+}
+
+fn is_byte_prefix_pair(x: &V, y: &V) -> bool {
+    let (p, q): (&[u8], &[u8]) = match (x, y) {
+        (V::Text(p), V::Text(q)) => (p.as_bytes(), q.as_bytes()),
+        (V::Blob(p), V::Blob(q)) => (p, q),
+        _ => return false,
+    };
+    p.len() != q.len() && (p.starts_with(q) || q.starts_with(p))
+}
+
+/// one case = a pair of keys: both are encoded, decoded and compared with the documented relation
+fn process(st: &mut Stats, a: &[V], b: &[V], class: u64, bump: &mut Bump, alt: bool, want_sample: bool) {
+    bump.reset();
+    let bump: &Bump = bump;
+    st.evals += 1;
+    let ka = check_key(a, bump, alt);
+    let kb = check_key(b, bump, alt);
+    st.count("keys_encoded_and_decoded", 2);
+    st.count("columns_decoded", (a.len() + b.len()) as u64);
+    if alt {
+        st.count("keys_alt_paths_compared", 2);
+    }
+    let mut encode_ok = true;
+    for (k, out) in [(a, &ka), (b, &kb)] {
+        if let Some(f) = &out.fail {
+            if f.assertion == "no_panic" || f.assertion == "prefix_range" {
+                encode_ok = false;
+            }
+            record_key_fail(st, k, f, bump);
+            // twin: the value the decoder returned instead; if it is a different value with the
+            // same key, injectivity is broken as well
+            if f.assertion == "decode_round_trip" && f.kind == "value" {
+                if let Some(d) = &out.decoded {
+                    let twin: Vec<V> = d.iter().map(from_decoded).collect();
+                    st.count("twin_pairs", 1);
+                    if let Some(pf) = pair_fails(k, &twin, bump) {
+                        record_pair_fail(st, k, &twin, &pf, bump);
+                    }
+                }
+            }
+        }
+    }
+    if !encode_ok {
+        return;
+    }
+    let p = judge(a, b, &ka.enc, &kb.enc);
+    match p.rel {
+        Rel::Lt | Rel::Gt => st.count("pairs_ordered", 1),
+        Rel::Same => st.count("pairs_same_value", 1),
+        Rel::Distinct => st.count("pairs_distinct_unordered", 1),
+        Rel::Free => st.count("pairs_nothing_promised", 1),
+    }
+    let multi = a.len() > 1 || b.len() > 1;
+    if multi {
+        st.count("pairs_composite", 1);
+        if p.col > 0 && p.col < a.len().min(b.len()) {
+            st.count("pairs_composite_decided_after_first_column", 1);
+        }
+    }
+    if p.col < a.len().min(b.len()) {
+        if is_byte_prefix_pair(&a[p.col], &b[p.col]) && (a.len() > p.col + 1 || b.len() > p.col + 1) {
+            st.count("pairs_prefix_hazard", 1);
+        }
+        if rank(&a[p.col]) != rank(&b[p.col]) {
+            st.count("pairs_cross_type", 1);
+        }
+    }
+    if let Some(dis) = p.mixed_disagree {
+        st.count("not_asserted_int_vs_float_same_sign", 1);
+        if dis {
+            st.count("not_asserted_int_vs_float_same_sign_numeric_order_differs", 1);
+        }
+    }
+    let ka_id = a.get(p.col).map(kind_id).unwrap_or(NKINDS);
+    let kb_id = b.get(p.col).map(kind_id).unwrap_or(NKINDS);
+    if p.rel != Rel::Free {
+        st.nontrivial.insert((p.rel as u64) | (ka_id << 4) | (kb_id << 10) | ((p.col as u64) << 16) | ((a.len() as u64) << 20) | ((b.len() as u64) << 24) | (class << 28));
+    }
+    if let Some(f) = &p.fail {
+        record_pair_fail(st, a, b, f, bump);
+    }
+    if want_sample && st.samples.len() < 6 {
+        st.samples.push(json!({"a": dbg_key(a), "b": dbg_key(b), "enc_a": hex(&ka.enc), "enc_b": hex(&kb.enc), "documented": format!("{:?}", p.rel), "memcmp": format!("{:?}", ka.enc.cmp(&kb.enc)), "decided_at_column": p.col}));
+    }
+}
+
+fn random_pairs(seed: u64, n: u64, deadline_s: f64, sample: bool) -> Stats {
+    let start = std::time::Instant::now();
+    let mut st = Stats::default();
+    let mut g = Gen::new(Rng::new(seed));
+    let mut bump = Bump::new();
+    for i in 0..n {
+        if i % 4096 == 0 && start.elapsed().as_secs_f64() > deadline_s {
+            st.count("random_pairs_cut_by_deadline", n - i);
+            break;
+        }
+        let (a, b, related) = g.pair();
+        let want = sample && (i % 37 == 5);
+        process(&mut st, &a, &b, 2 + related as u64, &mut bump, i % 4 == 0, want);
+        st.count("random_pairs", 1);
+    }
+    st
+}
+
+pub fn run(a: &Args) -> i32 {
+    let miri = cfg!(miri);
+    let mut ctx = Ctx::new(
+        "C26",
+        &a.tier,
+        a.seed,
+        "exploration",
+        "pairs of (composite) keys over every type turdb::encoding::key encodes: all pairs of a boundary list, the text/blob prefix-hazard grid with a second column, and random related/independent pairs; each key is encoded by the real encoder (per-type fn, encode_value, SmallVec buffer), decoded column by column, and memcmp of the pair is compared with an independent definition of the documented order. distinct_nontrivial = distinct (documented relation, kinds of the deciding columns, deciding column, key widths, stratum) classes for which something was asserted",
+    );
+    let quick = ctx.quick();
+    let mut master = Rng::derive(a.seed, 26);
+    let mut st = Stats::default();
+    let mut bump = Bump::new();
+
+    // stratum 0: all pairs of the boundary list (single-column keys)
+    let bl = boundaries();
+    ctx.extra.insert("boundary_values".into(), json!(bl.len()));
+    if miri {
+        for i in 0..bl.len() {
+            let j = (i + 1) % bl.len();
+            process(&mut st, &bl[i..i + 1], &bl[j..j + 1], 0, &mut bump, true, false);
+            st.count("boundary_pairs", 1);
+        }
+        for _ in 0..600 {
+            let i = master.below(bl.len() as u64) as usize;
+            let j = master.below(bl.len() as u64) as usize;
+            process(&mut st, &bl[i..i + 1], &bl[j..j + 1], 0, &mut bump, false, false);
+            st.count("boundary_pairs", 1);
+        }
+    } else {
+        for i in 0..bl.len() {
+            for j in i..bl.len() {
+                process(&mut st, &bl[i..i + 1], &bl[j..j + 1], 0, &mut bump, j == i, false);
+                st.count("boundary_pairs", 1);
+            }
+        }
+    }
+
+    // stratum 1: prefix hazard grid: (string, tail) vs (string', tail')
+    let strings: Vec<V> = bl.iter().filter(|v| matches!(v, V::Text(_) | V::Blob(_))).cloned().collect();
+    let tails = hazard_tails();
+    let mut grid = 0u64;
+    if miri {
+        for _ in 0..300 {
+            let ka = vec![master.pick(&strings).clone(), master.pick(&tails).clone()];
+            let kb = vec![master.pick(&strings).clone(), master.pick(&tails).clone()];
+            process(&mut st, &ka, &kb, 1, &mut bump, false, false);
+            grid += 1;
+        }
+    } else {
+        for s1 in &strings {
+            for s2 in &strings {
+                // same string type only (text vs blob is decided by the type byte)
+                if kind_id(s1) != kind_id(s2) {
+                    continue;
+                }
+                for t1 in &tails {
+                    for t2 in &tails {
+                        let ka = vec![s1.clone(), t1.clone()];
+                        let kb = vec![s2.clone(), t2.clone()];
+                        process(&mut st, &ka, &kb, 1, &mut bump, false, grid == 77_777);
+                        grid += 1;
+                    }
+                }
+            }
+        }
+    }
+    st.count("hazard_grid_pairs", grid);
+
+    // stratum 2/3: random pairs
+    let (workers, total, deadline): (u64, u64, f64) = if miri { (1, 1100, 1e9) } else if quick { (8, 1_200_000, 40.0) } else { (16, 100_000_000, 500.0) };
+    let seeds: Vec<u64> = (0..workers).map(|_| master.next()).collect();
+    let per = total / workers;
+    if workers == 1 {
+        st.merge(random_pairs(seeds[0], per, deadline, true));
+    } else {
+        let handles: Vec<_> = seeds
+            .iter()
+            .enumerate()
+            .map(|(w, s)| {
+                let s = *s;
+                std::thread::spawn(move || random_pairs(s, per, deadline, w == 0))
+            })
+            .collect();
+        for h in handles {
+            match h.join() {
+                Ok(s) => st.merge(s),
+                Err(_) => ctx.inconclusive("a worker thread of the harness panicked"),
+            }
+        }
+    }
+
+    // merge into the run context
+    ctx.evals(st.evals);
+    for h in &st.nontrivial {
+        ctx.nontrivial(*h);
+    }
+    for (k, n) in &st.counters {
+        ctx.count(k, *n);
+    }
+    for s in st.samples.drain(..) {
+        ctx.sample(s);
+    }
+    let mut by_assertion: BTreeMap<String, u64> = BTreeMap::new();
+    for ((assertion, sig), (n, details)) in &st.viols {
+        *by_assertion.entry(assertion.clone()).or_insert(0) += *n;
+        let mut left = *n;
+        for d in details {
+            ctx.violation(assertion, sig, d.clone());
+            left -= 1;
+        }
+        for _ in 0..left {
+            ctx.violation(assertion, sig, json!({"repeat_of": sig}));
+        }
+    }
+    ctx.extra.insert("failed_sub_assertions".into(), json!(by_assertion));
+    ctx.extra.insert(
+        "signatures_seen".into(),
+        json!(st.viols.iter().map(|((_, s), (n, _))| (s.clone(), *n)).collect::<BTreeMap<String, u64>>()),
+    );
+    ctx.extra.insert(
+        "sub_assertions".into(),
+        json!(["no_panic", "prefix_range", "alt_paths_agree", "decode_round_trip", "order_iso", "composite_order", "deterministic", "injective"]),
+    );
+    ctx.exhaustive = Some(false);
+    ctx.assumptions.push("Database::encode_value_as_key is pub(crate) and therefore not driven; only turdb::encoding::key is".into());
+    ctx.assumptions.push("int vs float inside the same sign class, vector order, inet order, range order, JSON object order, interval order beyond component-wise dominance and timestamptz order at equal instants are not documented: only injectivity/round trip is asserted there (int-vs-float numeric disagreement is counted, not judged)".into());
+    ctx.assumptions.push("JSON numbers are generated finite only (NaN/inf are not JSON values)".into());
+    ctx.finish()
 }
